@@ -10,9 +10,11 @@
 
    Part 1: refutations (closed, by vm_compute).
    Part 2: what IS true of the model (restricted statements), see the section comments. *)
-From Coq Require Import ZArith List Lia ZifyN ZifyNat ZifyBool Bool.
-From SA Require Import Base.Prelude Gen.SourceConsts Kernels.Linear Kernels.Linear_Proofs Codec.Codec Index.Index Index.Index_Spec
-  Query.Phrase Query.Phrase_Spec Span.Span Span.Span_Spec.
+From Coq Require Import ZArith List Lia ZifyN ZifyNat ZifyBool Bool Sorted Permutation.
+From SA Require Import Base.Prelude Gen.SourceConsts Kernels.Intersect Kernels.Spec Kernels.Intersect_Correct Kernels.Adjacent_Correct
+  Kernels.Linear Kernels.Linear_Proofs Codec.Codec Codec.Codec_Spec Codec.Codec_Proofs
+  Index.Index Index.Index_Spec Index.Index_Proofs Index.Index_Proofs2 Index.Index_Proofs3
+  Query.Phrase Query.Phrase_Spec Span.Span Span.Span_Spec Span.Span_Proofs.
 Import ListNotations.
 Open Scope N_scope.
 
@@ -526,5 +528,1365 @@ Proof.
   nia.
 Qed.
 
+(* ---------- L2: the model loops compute the pure fold while the table has room ---------- *)
+Lemma bind_inv' {A B} (r : result A) (f : A -> result B) b :
+  bind r f = Done b -> exists a, r = Done a /\ f a = Done b.
+Proof. destruct r; cbn; intro H; try discriminate. eauto. Qed.
+
+Lemma pop_clear_pos' : forall p, popcount (N.land (Npos p) (Pos.pred_N p)) + 1 = pop_pos p.
+Proof.
+  induction p as [p IH|p IH|].
+  - change (Pos.pred_N p~1) with (Npos p~0). change (N.land (Npos p~1) (Npos p~0)) with (Pos.Ndouble (N.land (Npos p) (Npos p))).
+    rewrite N.land_diag. cbn [Pos.Ndouble popcount pop_pos]. lia.
+  - change (Pos.pred_N p~0) with (Npos (Pos.pred_double p)).
+    change (N.land (Npos p~0) (Npos (Pos.pred_double p))) with (Pos.land p~0 (Pos.pred_double p)).
+    replace (Pos.land p~0 (Pos.pred_double p)) with (Pos.Ndouble (N.land (Npos p) (Pos.pred_N p))) by (destruct p; reflexivity).
+    replace (popcount (Pos.Ndouble (N.land (N.pos p) (Pos.pred_N p)))) with (popcount (N.land (N.pos p) (Pos.pred_N p)))
+      by (destruct (N.land (N.pos p) (Pos.pred_N p)); reflexivity).
+    cbn [pop_pos]. exact IH.
+  - reflexivity.
+Qed.
+Lemma pop_clear' n : n <> 0 -> popcount (N.land n (n - 1)) + 1 = popcount n.
+Proof. destruct n as [|p]; [congruence|]. intros _. rewrite N.sub_1_r, <- N.pos_pred_spec. apply pop_clear_pos'. Qed.
+
+(* the set bits in the order the loop consumes them *)
+Fixpoint bits_of (fuel : nat) (term : N) : list N :=
+  match fuel with
+  | O => []
+  | S f => if term =? 0 then [] else ctz term :: bits_of f (N.land term (term - 1))
+  end.
+
+Lemma bits_of_len : forall fuel term, (N.to_nat (popcount term) <= fuel)%nat ->
+  length (bits_of fuel term) = N.to_nat (popcount term).
+Proof.
+  induction fuel as [|f IH]; intros term H; cbn [bits_of].
+  - cbn [length]. lia.
+  - destruct (N.eqb_spec term 0) as [->|Hne]; [reflexivity|].
+    pose proof (pop_clear' term Hne). cbn [length]. rewrite IH by lia. lia.
+Qed.
+
+Section BitsLoop.
+Variables (nt : N) (maxw : Z) (t : N) (base : N).
+Hypothesis Ht : t < 64.
+
+Lemma bits_loop_pure : forall fuel term spans,
+  (N.to_nat (popcount term) < fuel)%nat ->
+  (phi t spans + N.to_nat (popcount term) < 512)%nat ->
+  bits_loop fuel term (Z.of_N base) (2 ^ t) nt maxw spans false =
+    Done (run_term nt maxw t spans (map (fun b => b + base) (bits_of fuel term)), false).
+Proof.
+  induction fuel as [|f IH]; intros term spans Hf Hphi; [lia|].
+  cbn [bits_loop bits_of]. destruct (N.eqb_spec term 0) as [->|Hne]; [reflexivity|].
+  pose proof (pop_clear' term Hne) as Hpc.
+  pose proof (len_le_phi t spans) as Hlen.
+  assert (Hcap : (SPAN_CAP <=? N.of_nat (length spans)) = false).
+  { apply N.leb_gt. unfold SPAN_CAP, src_span_cap. lia. }
+  rewrite Hcap. cbv zeta.
+  rewrite wr_ok_lt by (unfold SPAN_CAP, src_span_cap; lia). cbn [bind].
+  rewrite <- N2Z.inj_add.
+  set (c := ctz term + base).
+  rewrite update_spans_pure.
+  2:{ pose proof (forks_le_lack nt maxw t (pmask (Z.of_N c)) (Z.of_N c) spans) as Hfk. unfold phi in *.
+      unfold SPAN_CAP, src_span_cap. lia. }
+  change (map (upd_s nt maxw (2 ^ t) (pmask (Z.of_N c)) (Z.of_N c)) spans ++
+          {| sp_terms := 2 ^ t; sp_posns := pmask (Z.of_N c); sp_beg := Z.of_N c; sp_end := Z.of_N c |}
+          :: map (upd_c (2 ^ t) (pmask (Z.of_N c))) (filter (forks nt maxw (2 ^ t) (pmask (Z.of_N c)) (Z.of_N c)) spans))
+    with (stepT nt maxw t c spans).
+  pose proof (phi_step nt maxw t c spans Ht) as Hstep.
+  pose proof (len_le_phi t (stepT nt maxw t c spans)) as Hlen'.
+  assert (Hcap' : (SPAN_CAP <=? N.of_nat (length (stepT nt maxw t c spans))) = false).
+  { apply N.leb_gt. unfold SPAN_CAP, src_span_cap. lia. }
+  rewrite Hcap'.
+  replace (if existsb (forks nt maxw (2 ^ t) (pmask (Z.of_N c)) (Z.of_N c)) spans then false else false) with false
+    by (destruct (existsb _ spans); reflexivity).
+  rewrite IH by lia. cbn [map run_term fold_left]. reflexivity.
+Qed.
+End BitsLoop.
+
+Lemma pc_lt_pow2 : forall k x, x < 2 ^ k -> popcount x <= k.
+Proof.
+  induction k as [|k IH] using N.peano_ind; intros x Hx.
+  - change (2 ^ 0) with 1 in Hx. assert (x = 0) by lia. subst. cbn. lia.
+  - rewrite N.pow_succ_r' in Hx. rewrite (N.div2_odd x). rewrite pc_2b.
+    assert (N.div2 x < 2 ^ k). { rewrite (N.div2_odd x) in Hx. destruct (N.odd x); cbn [N.b2n] in Hx; lia. }
+    specialize (IH _ H). destruct (N.odd x); cbn [N.b2n]; lia.
+Qed.
+
+Definition wbase (w : N) : N := N.shiftr (N.land w payload_msb_mask) lsb_bits * lsb_bits.
+Definition wpay (w : N) : N := N.land w (wnot header_mask).
+Definition wcs (w : N) : list N := map (fun b => b + wbase w) (bits_of 70 (wpay w)).
+
+Lemma wcs_eq w : map (fun b => b + wbase w) (bits_of 70 (wpay w)) = wcs w.
+Proof. unfold wcs. reflexivity. Qed.
+Lemma wpay_lt w : wpay w < 2 ^ 18.
+Proof.
+  unfold wpay. replace (wnot header_mask) with (N.ones 18) by (vm_compute; reflexivity).
+  rewrite N.land_ones. apply N.mod_lt. discriminate.
+Qed.
+Lemma wpay_pc w : popcount (wpay w) <= 18.
+Proof. apply pc_lt_pow2. apply wpay_lt. Qed.
+Lemma wcs_len w : length (wcs w) = N.to_nat (popcount (wpay w)).
+Proof. unfold wcs. rewrite map_length. apply bits_of_len. pose proof (wpay_pc w). lia. Qed.
+
+Lemma run_term_app nt maxw t spans l1 l2 :
+  run_term nt maxw t spans (l1 ++ l2) = run_term nt maxw t (run_term nt maxw t spans l1) l2.
+Proof. unfold run_term. apply fold_left_app. Qed.
+
+(* [bits_loop 70] sealed: conversion checks must never normalise it (2^70 blow-up otherwise) *)
+Definition BL70 : {f : N -> Z -> N -> N -> Z -> list span -> bool -> result (list span * bool) | f = bits_loop 70}.
+Proof. exists (bits_loop 70). reflexivity. Qed.
+Definition bl70 := proj1_sig BL70.
+Lemma bl70_eq : bl70 = bits_loop 70.
+Proof. exact (proj2_sig BL70). Qed.
+
+Lemma fits_cons nt maxw t cs rest spans :
+  fits nt maxw t (cs :: rest) spans = ((phi t spans + length cs < 512)%nat /\ fits nt maxw (t + 1) rest (run_term nt maxw t spans cs)).
+Proof. reflexivity. Qed.
+Lemma run_terms_cons nt maxw t cs rest spans :
+  run_terms nt maxw t (cs :: rest) spans = run_terms nt maxw (t + 1) rest (run_term nt maxw t spans cs).
+Proof. reflexivity. Qed.
+
+Section Nav.
+Variables (P : mem) (g : N -> N) (n : N).
+Hypothesis rdP : forall i, i < n -> rd 0 P i = Done (g i).
+Variables (nt : N) (maxw : Z).
+
+Lemma words_loop_S f hi tord spans full lk ck idx sum :
+  words_loop P (S f) hi tord nt maxw
+    {| ts_spans := spans; ts_full := full; ts_last_key := lk; ts_curr_key := ck; ts_idx := idx; ts_sum := sum |} =
+  if idx <? hi then
+    do w <- rd 0 P idx;
+    do bl <- bl70 (wpay w) (Z.of_N (wbase w)) (N.shiftl 1 tord) nt maxw spans full;
+    let '(spans1, full1) := bl in
+    do ck1 <- (if idx + 1 <? hi then do w2 <- rd 0 P (idx + 1); Done (dkey w2) else Done ck);
+    do cg <- (if SPAN_CAP <=? N.of_nat (length spans1) then
+                let sp2 := compact spans1 maxw in
+                if SPAN_CAP <=? N.of_nat (length sp2) then
+                  do g0 <- give_up P (S (N.to_nat (hi - (idx + 1)))) (idx + 1) hi ck ck1;
+                  Done (sp2, match fst g0 with Some i => i | None => idx + 1 end, snd g0)
+                else Done (sp2, idx + 1, ck1)
+              else Done (spans1, idx + 1, ck1));
+    let '(spans2, idx2, ck2) := cg in
+    let st' := {| ts_spans := spans2; ts_full := full1; ts_last_key := ck; ts_curr_key := ck2; ts_idx := idx2;
+                  ts_sum := sum + popcount (wpay w) |} in
+    if negb (ck2 =? ck) then Done st' else words_loop P f hi tord nt maxw st'
+  else Done {| ts_spans := spans; ts_full := full; ts_last_key := lk; ts_curr_key := ck; ts_idx := idx; ts_sum := sum |}.
+Proof. rewrite bl70_eq. reflexivity. Qed.
+
+(* ---- general facts (any document, any table state): the loops only move over words of the current key ---- *)
+Lemma give_up_spec : forall fuel i hi lk ck r, hi <= n -> give_up P fuel i hi lk ck = Done r ->
+  match fst r with
+  | Some i' => i <= i' /\ i' < hi /\ dkey (g i') <> lk /\ snd r = dkey (g i') /\ (forall j, i <= j -> j < i' -> dkey (g j) = lk)
+  | None => (forall j, i <= j -> j < hi -> dkey (g j) = lk) /\ (snd r = lk \/ (hi <= i /\ snd r = ck))
+  end.
+Proof.
+  induction fuel as [|f IH]; intros i hi lk ck r Hhi H; cbn [give_up] in H; [discriminate|].
+  destruct (N.ltb_spec i hi) as [Hlt|Hge].
+  - rewrite rdP in H by lia. cbn [bind] in H.
+    destruct (N.eqb_spec (dkey (g i)) lk) as [E|E]; cbn [negb] in H.
+    + apply IH in H; [|exact Hhi]. destruct (fst r) as [i'|].
+      * destruct H as (H1 & H2 & H3 & H4 & H5). repeat split; try assumption; [lia|].
+        intros j Hj1 Hj2. destruct (N.eq_dec j i) as [->|Hne]; [exact E|apply H5; lia].
+      * destruct H as [H1 H2]. split.
+        -- intros j Hj1 Hj2. destruct (N.eq_dec j i) as [->|Hne]; [exact E|apply H1; lia].
+        -- left. destruct H2 as [H2|[_ H2]]; [exact H2|]. rewrite H2. exact E.
+    + injection H as <-. cbn [fst snd]. repeat split; try assumption; try lia.
+  - injection H as <-. cbn [fst snd]. split; [intros j Hj1 Hj2; lia|]. right. split; [lia|reflexivity].
+Qed.
+
+Lemma words_loop_gen tord : forall fuel hi st st', hi <= n ->
+  (ts_idx st < hi -> dkey (g (ts_idx st)) = ts_curr_key st) ->
+  words_loop P fuel hi tord nt maxw st = Done st' ->
+  ts_idx st <= ts_idx st' /\ (ts_idx st < hi -> ts_idx st < ts_idx st') /\ (ts_idx st' <= N.max hi (ts_idx st)) /\
+  forall j, ts_idx st <= j -> j < ts_idx st' -> dkey (g j) = ts_curr_key st.
+Proof.
+  induction fuel as [|f IH]; intros hi st st' Hhi Hinv H; [discriminate|].
+  destruct st as [spans full lk ck idx sum]. cbn [ts_idx ts_curr_key] in *. rewrite words_loop_S in H.
+  destruct (N.ltb_spec idx hi) as [Hlt|Hge].
+  2:{ injection H as <-. cbn [ts_idx]. repeat split; try lia. }
+  specialize (Hinv Hlt).
+  rewrite rdP in H by lia. cbn [bind] in H.
+  destruct (bl70 (wpay (g idx)) (Z.of_N (wbase (g idx))) (N.shiftl 1 tord) nt maxw spans full) as [[spans1 full1]| |] eqn:Ebl;
+    cbn [bind] in H; try discriminate.
+  set (ck1 := if idx + 1 <? hi then dkey (g (idx + 1)) else ck).
+  assert (Eck : (if idx + 1 <? hi then do w2 <- rd 0 P (idx + 1); Done (dkey w2) else Done ck) = Done ck1).
+  { unfold ck1. destruct (N.ltb_spec (idx + 1) hi); [rewrite rdP by lia|]; reflexivity. }
+  rewrite Eck in H. cbn [bind] in H.
+  (* what the compaction / give-up step returns *)
+  assert (Hcg : forall spans2 idx2 ck2 rest,
+     (idx2 = idx + 1 /\ ck2 = ck1) \/
+     (ck2 <> ck /\ idx + 1 <= idx2 /\ idx2 < hi /\ ck2 = dkey (g idx2) /\ (forall j, idx + 1 <= j -> j < idx2 -> dkey (g j) = ck)) \/
+     (idx2 = idx + 1 /\ ck2 = ck /\ (forall j, idx + 1 <= j -> j < hi -> dkey (g j) = ck)) ->
+     (if negb (ck2 =? ck) then Done rest else words_loop P f hi tord nt maxw
+         {| ts_spans := spans2; ts_full := full1; ts_last_key := ck; ts_curr_key := ck2; ts_idx := idx2;
+            ts_sum := sum + popcount (wpay (g idx)) |}) = Done st' ->
+     rest = {| ts_spans := spans2; ts_full := full1; ts_last_key := ck; ts_curr_key := ck2; ts_idx := idx2;
+               ts_sum := sum + popcount (wpay (g idx)) |} ->
+     idx <= ts_idx st' /\ (idx < hi -> idx < ts_idx st') /\ ts_idx st' <= N.max hi idx /\
+     forall j, idx <= j -> j < ts_idx st' -> dkey (g j) = ck).
+  { intros spans2 idx2 ck2 rest Hcases Hrun ->.
+    destruct (N.eqb_spec ck2 ck) as [E|E]; cbn [negb] in Hrun.
+    - (* the loop goes on with the next word of the same key *)
+      subst ck2. apply IH in Hrun; [|exact Hhi|]; cbn [ts_idx ts_curr_key] in *.
+      + destruct Hrun as (R1 & R2 & R3 & R4).
+        assert (Hidx2 : idx2 = idx + 1) by (destruct Hcases as [[? _]|[[? _]|[? _]]]; [assumption|congruence|assumption]).
+        subst idx2. repeat split; try lia. intros j Hj1 Hj2.
+        destruct (N.eq_dec j idx) as [->|Hne]; [exact Hinv|apply R4; lia].
+      + intros Hlt2. destruct Hcases as [[-> Hck]|[[Hne _]|[-> [_ Hall]]]]; [|congruence|apply Hall; lia].
+        unfold ck1 in Hck. destruct (N.ltb_spec (idx + 1) hi); [congruence|lia].
+    - injection Hrun as <-. cbn [ts_idx].
+      destruct Hcases as [[-> Hck]|[(_ & H1 & H2 & H3 & H4)|[_ [Hck _]]]]; [| |congruence].
+      + repeat split; try lia. intros j Hj1 Hj2. assert (j = idx) by lia. subst j. exact Hinv.
+      + repeat split; try lia. intros j Hj1 Hj2. destruct (N.eq_dec j idx) as [->|Hne]; [exact Hinv|apply H4; lia]. }
+  destruct (SPAN_CAP <=? N.of_nat (length spans1)).
+  - cbv zeta in H. destruct (SPAN_CAP <=? N.of_nat (length (compact spans1 maxw))).
+    + destruct (give_up P (S (N.to_nat (hi - (idx + 1)))) (idx + 1) hi ck ck1) as [g0| |] eqn:Eg; cbn [bind] in H; try discriminate.
+      apply give_up_spec in Eg; [|exact Hhi]. destruct g0 as [[i'|] k']; cbn [fst snd] in *.
+      * destruct Eg as (G1 & G2 & G3 & G4 & G5). eapply Hcg; [|exact H|reflexivity].
+        right. left. subst k'. repeat split; assumption.
+      * destruct Eg as [G1 G2]. eapply Hcg; [|exact H|reflexivity].
+        destruct G2 as [G2|[G2 G3]].
+        -- right. right. repeat split; assumption.
+        -- left. split; [reflexivity|exact G3].
+    + cbn [bind] in H. eapply Hcg; [|exact H|reflexivity]. left. split; reflexivity.
+  - cbn [bind] in H. eapply Hcg; [|exact H|reflexivity]. left. split; reflexivity.
+Qed.
+
+Lemma skip_earlier_spec : forall fuel i hi dk i', hi <= n -> skip_earlier P fuel i hi dk = Done i' ->
+  i <= i' /\ i' <= N.max hi i /\ (forall j, i <= j -> j < i' -> dkey (g j) < dk) /\ (i' < hi -> dk <= dkey (g i')).
+Proof.
+  induction fuel as [|f IH]; intros i hi dk i' Hhi H; cbn [skip_earlier] in H; [discriminate|].
+  destruct (N.ltb_spec i hi) as [Hlt|Hge].
+  - rewrite rdP in H by lia. cbn [bind] in H. destruct (N.ltb_spec (dkey (g i)) dk) as [Hk|Hk].
+    + apply IH in H; [|exact Hhi]. destruct H as (H1 & H2 & H3 & H4).
+      split; [lia|]. split; [lia|]. split; [|exact H4].
+      intros j Hj1 Hj2. destruct (N.eq_dec j i) as [->|Hne]; [exact Hk|apply H3; lia].
+    + injection H as <-. split; [lia|]. split; [lia|]. split; [intros j Hj1 Hj2; lia|]. intros _. exact Hk.
+  - injection H as <-. split; [lia|]. split; [lia|]. split; intros; lia.
+Qed.
+
+End Nav.
+
+Section Words.
+Variables (P : mem) (g : N -> N) (n : N).
+Hypothesis rdP : forall i, i < n -> rd 0 P i = Done (g i).
+Variables (nt : N) (maxw : Z) (t : N).
+Hypothesis Ht : t < 64.
+
+Fixpoint wrun (a : N) (m : nat) : list N :=
+  match m with O => [] | S m' => wcs (g a) ++ wrun (a + 1) m' end.
+
+Lemma wrun_S a m : wrun a (S m) = wcs (g a) ++ wrun (a + 1) m.
+Proof. reflexivity. Qed.
+
+Lemma wrun_0 a : wrun a 0 = [].
+Proof. reflexivity. Qed.
+
+(* one word of the target document, the table having room *)
+Lemma words_loop_word f hi a spans lk d sum : a < hi -> hi <= n ->
+  (phi t spans + N.to_nat (popcount (wpay (g a))) < 512)%nat ->
+  words_loop P (S f) hi t nt maxw
+    {| ts_spans := spans; ts_full := false; ts_last_key := lk; ts_curr_key := d; ts_idx := a; ts_sum := sum |} =
+  let sp1 := run_term nt maxw t spans (wcs (g a)) in
+  let ck := if a + 1 <? hi then dkey (g (a + 1)) else d in
+  let st' := {| ts_spans := sp1; ts_full := false; ts_last_key := d; ts_curr_key := ck; ts_idx := a + 1;
+                ts_sum := sum + popcount (wpay (g a)) |} in
+  if negb (ck =? d) then Done st' else words_loop P f hi t nt maxw st'.
+Proof.
+  intros Ha Hhi Hphi. rewrite (words_loop_S P nt maxw).
+  assert (Hlt : (a <? hi) = true) by (apply N.ltb_lt; lia). rewrite Hlt.
+  rewrite rdP by lia. cbn [bind]. rewrite N.shiftl_1_l.
+  pose proof (wpay_pc (g a)) as Hpc.
+  rewrite bl70_eq, (bits_loop_pure nt maxw t (wbase (g a)) Ht) by lia. cbn [bind].
+  rewrite wcs_eq.
+  assert (Hcap : (SPAN_CAP <=? N.of_nat (length (run_term nt maxw t spans (wcs (g a))))) = false).
+  { apply N.leb_gt. pose proof (len_le_phi t (run_term nt maxw t spans (wcs (g a)))) as Hl.
+    rewrite phi_run in Hl by exact Ht. rewrite wcs_len in Hl. unfold SPAN_CAP, src_span_cap. lia. }
+  destruct (N.ltb_spec (a + 1) hi) as [Hlt1|Hge1].
+  - rewrite rdP by lia. cbn [bind]. rewrite Hcap. cbn [bind]. reflexivity.
+  - cbn [bind]. rewrite Hcap. cbn [bind]. reflexivity.
+Qed.
+
+Lemma words_loop_end f hi st : hi <= ts_idx st -> words_loop P (S f) hi t nt maxw st = Done st.
+Proof.
+  intros H. destruct st as [sp fl lk ck idx sm]. rewrite (words_loop_S P nt maxw). cbn [ts_idx] in H.
+  assert (E : (idx <? hi) = false) by (apply N.ltb_ge; exact H). rewrite E. reflexivity.
+Qed.
+
+Lemma words_loop_pure d hi : hi <= n -> forall m fuel a spans sum lk,
+  (S m < fuel)%nat -> a + N.of_nat (S m) <= hi ->
+  (forall k, (k <= m)%nat -> dkey (g (a + N.of_nat k)) = d) ->
+  (a + N.of_nat (S m) = hi \/ dkey (g (a + N.of_nat (S m))) <> d) ->
+  (phi t spans + length (wrun a (S m)) < 512)%nat ->
+  exists st', words_loop P fuel hi t nt maxw
+      {| ts_spans := spans; ts_full := false; ts_last_key := lk; ts_curr_key := d; ts_idx := a; ts_sum := sum |} = Done st' /\
+    ts_spans st' = run_term nt maxw t spans (wrun a (S m)) /\ ts_full st' = false /\ ts_idx st' = a + N.of_nat (S m).
+Proof.
+  intros Hhi. induction m as [|m IH]; intros fuel a spans sum lk Hfuel Ha Hkeys Hend Hphi;
+    (destruct fuel as [|fuel]; [lia|]); rewrite (wrun_S a) in Hphi; rewrite app_length, wcs_len in Hphi;
+    rewrite (wrun_S a); rewrite words_loop_word by lia; cbv zeta.
+  - (* last word of the run *)
+    rewrite wrun_0, app_nil_r. replace (a + N.of_nat 1) with (a + 1) in * by lia.
+    destruct (N.ltb_spec (a + 1) hi) as [Hlt1|Hge1].
+    + destruct Hend as [Hend|Hend]; [lia|].
+      destruct (N.eqb_spec (dkey (g (a + 1))) d) as [E|_]; [congruence|]. cbn [negb].
+      eexists. split; [reflexivity|]. cbn [ts_spans ts_full ts_idx]. split; [reflexivity|]. split; reflexivity.
+    + rewrite N.eqb_refl. cbn [negb]. destruct fuel as [|fuel]; [lia|].
+      rewrite words_loop_end by (cbn [ts_idx]; lia).
+      eexists. split; [reflexivity|]. cbn [ts_spans ts_full ts_idx]. split; [reflexivity|]. split; reflexivity.
+  - (* a word followed by more words of the same document *)
+    assert (Hlt1 : (a + 1 <? hi) = true) by (apply N.ltb_lt; lia). rewrite Hlt1.
+    assert (Hk1 : dkey (g (a + 1)) = d). { specialize (Hkeys 1%nat ltac:(lia)). replace (a + N.of_nat 1) with (a + 1) in Hkeys by lia. exact Hkeys. }
+    rewrite Hk1, N.eqb_refl. cbn [negb].
+    destruct (IH fuel (a + 1) (run_term nt maxw t spans (wcs (g a))) (sum + popcount (wpay (g a))) d) as (st' & Hrun & Hs & Hf & Hi).
+    + lia.
+    + lia.
+    + intros k Hk. specialize (Hkeys (S k) ltac:(lia)). replace (a + 1 + N.of_nat k) with (a + N.of_nat (S k)) by lia. exact Hkeys.
+    + replace (a + 1 + N.of_nat (S m)) with (a + N.of_nat (S (S m))) by lia. exact Hend.
+    + rewrite phi_run by exact Ht. rewrite wcs_len. lia.
+    + exists st'. split; [exact Hrun|]. split; [|split; [exact Hf|lia]].
+      rewrite Hs. rewrite run_term_app. reflexivity.
+Qed.
+
+End Words.
+
+Section Terms.
+Variables (P : mem) (g : N -> N) (n : N).
+Hypothesis rdP : forall i, i < n -> rd 0 P i = Done (g i).
+Variables (nt : N) (maxw : Z).
+(* ---- the per-term cursors with respect to the target document d ---- *)
+Variable d : N.
+(* cursor idx of a term whose words of document d are g a .. g (a+m-1), inside its segment ending at hi *)
+Definition term_ok (idx hi : N) (am : N * nat) : Prop :=
+  let '(a, m) := am in
+  idx <= a /\ (forall j, idx <= j -> j < a -> dkey (g j) < d) /\ a + N.of_nat m <= hi /\ hi <= n /\ (1 <= m)%nat /\
+  (forall k, (k < m)%nat -> dkey (g (a + N.of_nat k)) = d) /\ (a + N.of_nat m = hi \/ dkey (g (a + N.of_nat m)) <> d).
+
+Inductive TL : list N -> list N -> list (N * nat) -> Prop :=
+| TL_nil : TL [] [] []
+| TL_cons idx hi am idxs his ams : term_ok idx hi am -> TL idxs his ams -> TL (idx :: idxs) (hi :: his) (am :: ams).
+
+Lemma terms_loop_S hi lrest i0 irest tord dk spans full lk sums ap :
+  terms_loop P (hi :: lrest) tord (i0 :: irest) nt maxw dk spans full lk sums ap =
+  do i <- skip_earlier P (S (N.to_nat (hi - i0))) i0 hi dk;
+  do st <- (if hi <=? i then
+              Done ({| ts_spans := spans; ts_full := full; ts_last_key := lk; ts_curr_key := 0; ts_idx := i; ts_sum := 0 |}, false)
+            else
+              do w0 <- rd 0 P i;
+              if negb (dkey w0 =? dk) then
+                Done ({| ts_spans := spans; ts_full := full; ts_last_key := lk; ts_curr_key := dkey w0; ts_idx := i; ts_sum := 0 |}, false)
+              else
+                do s <- words_loop P (S (N.to_nat (hi - i))) hi tord nt maxw
+                          {| ts_spans := spans; ts_full := full; ts_last_key := lk; ts_curr_key := dkey w0; ts_idx := i; ts_sum := 0 |};
+                Done (s, true));
+  let '(stt, present) := st in
+  do r <- terms_loop P lrest (tord + 1) irest nt maxw dk (ts_spans stt) (ts_full stt) (ts_last_key stt)
+            (sums ++ [ts_sum stt]) (andb ap present);
+  let '(idxs', sp', f', lk', sums', ap') := r in
+  Done (ts_idx stt :: idxs', sp', f', lk', sums', ap').
+Proof. reflexivity. Qed.
+
+(* an earlier document: every cursor stays at or before the first word of document d *)
+Lemma terms_loop_gen : forall his idxs ams tord dk spans full lk sums ap idxs' sp' f' lk' sums' ap',
+  dk < d -> TL idxs his ams ->
+  terms_loop P his tord idxs nt maxw dk spans full lk sums ap = Done (idxs', sp', f', lk', sums', ap') ->
+  TL idxs' his ams /\
+  match idxs, idxs' with i0 :: _, i0' :: _ => dkey (g i0) = dk -> i0 < i0' | _, _ => True end.
+Proof.
+  induction his as [|hi lrest IH]; intros idxs ams tord dk spans full lk sums ap idxs' sp' f' lk' sums' ap' Hdk HTL H.
+  - inversion HTL; subst. cbn [terms_loop] in H. injection H as <- <- <- <- <- <-. split; [constructor|exact I].
+  - inversion HTL as [|idx hi' am idxs0 his0 ams0 Hok HTL']; subst. rewrite terms_loop_S in H.
+    destruct am as [a m]. destruct Hok as (O1 & O2 & O3 & O4 & O5 & O6 & O7).
+    destruct (skip_earlier P (S (N.to_nat (hi - idx))) idx hi dk) as [i| |] eqn:Esk; cbn [bind] in H; try discriminate.
+    apply (skip_earlier_spec P g n rdP) in Esk; [|exact O4]. destruct Esk as (S1 & S2 & S3 & S4).
+    assert (Ha_d : dkey (g a) = d). { specialize (O6 0%nat ltac:(lia)). rewrite N.add_0_r in O6. exact O6. }
+    assert (Hia : i <= a).
+    { destruct (N.le_gt_cases i a) as [Hle|Hgt]; [exact Hle|]. specialize (S3 a O1 Hgt). lia. }
+    assert (Hlt : (hi <=? i) = false) by (apply N.leb_gt; lia). rewrite Hlt in H.
+    rewrite rdP in H by lia. cbn [bind] in H.
+    assert (Hpre : forall j, i <= j -> j < a -> dkey (g j) < d) by (intros j Hj1 Hj2; apply O2; lia).
+    (* the state after this term *)
+    assert (Hstt : forall stt present rest,
+       (let '(stt, present) := (stt, present) in
+        do r <- terms_loop P lrest (tord + 1) idxs0 nt maxw dk (ts_spans stt) (ts_full stt) (ts_last_key stt)
+                  (sums ++ [ts_sum stt]) (andb ap present);
+        let '(idxs', sp', f', lk', sums', ap') := r in Done (ts_idx stt :: idxs', sp', f', lk', sums', ap'))
+         = Done (idxs', sp', f', lk', sums', ap') ->
+       i <= ts_idx stt -> ts_idx stt <= a -> (dkey (g idx) = dk -> idx < ts_idx stt) -> rest = tt ->
+       TL idxs' (hi :: lrest) ((a, m) :: ams0) /\
+       match idxs' with i0' :: _ => dkey (g idx) = dk -> idx < i0' | _ => True end).
+    { intros stt present rest Hr Hi1 Hi2 Hprog _.
+      destruct (terms_loop P lrest (tord + 1) idxs0 nt maxw dk (ts_spans stt) (ts_full stt) (ts_last_key stt)
+                  (sums ++ [ts_sum stt]) (andb ap present)) as [[[[[[idxs1 sp1] f1] lk1] sums1] ap1]| |] eqn:Er;
+        cbn [bind] in Hr; try discriminate.
+      injection Hr as <- <- <- <- <- <-.
+      eapply IH in Er; [|exact Hdk|exact HTL']. destruct Er as [HTL1 _].
+      split; [|exact Hprog]. constructor; [|exact HTL1].
+      repeat split; try assumption; try lia. intros j Hj1 Hj2. apply O2; lia. }
+    destruct (N.eqb_spec (dkey (g i)) dk) as [Ek|Ek]; cbn [negb] in H.
+    + destruct (words_loop P (S (N.to_nat (hi - i))) hi tord nt maxw
+                 {| ts_spans := spans; ts_full := full; ts_last_key := lk; ts_curr_key := dkey (g i); ts_idx := i; ts_sum := 0 |})
+        as [s1| |] eqn:Ew; cbn [bind] in H; try discriminate.
+      apply (words_loop_gen P g n rdP) in Ew; [|exact O4|cbn [ts_idx ts_curr_key]; reflexivity].
+      cbn [ts_idx ts_curr_key] in Ew. destruct Ew as (W1 & W2 & W3 & W4).
+      apply (Hstt s1 true tt); [exact H|exact W1| |intros _; specialize (W2 ltac:(lia)); lia|reflexivity].
+      destruct (N.le_gt_cases (ts_idx s1) a) as [Hle|Hgt]; [exact Hle|].
+      specialize (W4 a Hia Hgt). lia.
+    + apply (Hstt {| ts_spans := spans; ts_full := full; ts_last_key := lk; ts_curr_key := dkey (g i); ts_idx := i; ts_sum := 0 |} false tt);
+        [exact H|cbn [ts_idx]; lia|cbn [ts_idx]; exact Hia| |reflexivity].
+      cbn [ts_idx]. intros Hk. destruct (N.eq_dec i idx) as [->|Hne]; [congruence|lia].
+Qed.
+
+Lemma skip_earlier_to dk : forall fuel idx hi a, a < hi -> hi <= n -> idx <= a ->
+  (forall j, idx <= j -> j < a -> dkey (g j) < dk) -> dk <= dkey (g a) -> (N.to_nat (a - idx) < fuel)%nat ->
+  skip_earlier P fuel idx hi dk = Done a.
+Proof.
+  induction fuel as [|f IH]; intros idx hi a Ha Hhi Hle Hpre Hge Hf; [lia|]. cbn [skip_earlier].
+  assert (E : (idx <? hi) = true) by (apply N.ltb_lt; lia). rewrite E. rewrite rdP by lia. cbn [bind].
+  destruct (N.eq_dec idx a) as [->|Hne].
+  - assert (E2 : (dkey (g a) <? dk) = false) by (apply N.ltb_ge; exact Hge). rewrite E2. reflexivity.
+  - assert (E2 : (dkey (g idx) <? dk) = true) by (apply N.ltb_lt; apply Hpre; lia). rewrite E2.
+    apply IH; try assumption; try lia. intros j Hj1 Hj2. apply Hpre; lia.
+Qed.
+
+Lemma bind_Done {A B} (a : A) (k : A -> result B) : bind (Done a) k = k a.
+Proof. reflexivity. Qed.
+
+(* the target document: one term, present; its words are consumed into the pure fold *)
+Lemma terms_loop_target_step hi lrest idx irest a m tord spans lk sums ap :
+  tord < 64 -> term_ok idx hi (a, S m) -> (phi tord spans + length (wrun g a (S m)) < 512)%nat ->
+  exists lk2 sm2,
+  terms_loop P (hi :: lrest) tord (idx :: irest) nt maxw d spans false lk sums ap =
+  do r <- terms_loop P lrest (tord + 1) irest nt maxw d (run_term nt maxw tord spans (wrun g a (S m))) false lk2 (sums ++ [sm2]) ap;
+  let '(idxs', sp', f', lk', sums', ap') := r in Done (a + N.of_nat (S m) :: idxs', sp', f', lk', sums', ap').
+Proof.
+  intros Ht (O1 & O2 & O3 & O4 & O5 & O6 & O7) Hfit.
+  assert (Ha_d : dkey (g a) = d). { specialize (O6 0%nat ltac:(lia)). rewrite N.add_0_r in O6. exact O6. }
+  destruct (words_loop_pure P g n rdP nt maxw tord Ht d hi O4 m (S (N.to_nat (hi - a))) a spans 0 lk) as (st' & Hrun & Hs & Hf & Hi).
+  { lia. } { exact O3. } { intros k Hk. apply O6. lia. } { exact O7. } { exact Hfit. }
+  destruct st' as [sp1 fl1 lk1 ck1 idx1 sm1]. cbn [ts_spans ts_full ts_idx] in Hs, Hf, Hi. subst sp1 fl1 idx1.
+  exists lk1, sm1.
+  rewrite terms_loop_S.
+  rewrite (skip_earlier_to d (S (N.to_nat (hi - idx))) idx hi a) by (try assumption; lia).
+  rewrite bind_Done.
+  assert (Hlt : (hi <=? a) = false) by (apply N.leb_gt; lia). rewrite Hlt.
+  rewrite rdP by lia. rewrite bind_Done. rewrite Ha_d, N.eqb_refl. cbn [negb].
+  rewrite Hrun. rewrite !bind_Done. cbv beta iota. cbn [ts_spans ts_full ts_last_key ts_sum ts_idx]. rewrite andb_true_r. reflexivity.
+Qed.
+
+(* the target document: every term is present, its words are consumed into the pure fold *)
+Lemma terms_loop_target : forall his idxs ams tord spans lk sums ap idxs' sp' f' lk' sums' ap',
+  tord + N.of_nat (length his) <= 64 -> TL idxs his ams ->
+  fits nt maxw tord (map (fun am => wrun g (fst am) (snd am)) ams) spans ->
+  terms_loop P his tord idxs nt maxw d spans false lk sums ap = Done (idxs', sp', f', lk', sums', ap') ->
+  sp' = run_terms nt maxw tord (map (fun am => wrun g (fst am) (snd am)) ams) spans /\ f' = false /\ ap' = ap.
+Proof.
+  induction his as [|hi lrest IH]; intros idxs ams tord spans lk sums ap idxs' sp' f' lk' sums' ap' H64 HTL Hfits H.
+  - inversion HTL; subst. cbn [terms_loop] in H. injection H as <- <- <- <- <- <-. cbn [map run_terms]. repeat split.
+  - inversion HTL as [|idx hi' am idxs0 his0 ams0 Hok HTL']; subst.
+    destruct am as [a m]. assert (Hm : (1 <= m)%nat) by (destruct Hok as (_ & _ & _ & _ & O5 & _); exact O5).
+    destruct m as [|m']; [lia|].
+    rewrite map_cons in Hfits |- *. cbn [fst snd] in Hfits |- *.
+    rewrite fits_cons in Hfits. destruct Hfits as [Hfit1 Hfits'].
+    assert (Ht : tord < 64) by (cbn [length] in H64; lia).
+    destruct (terms_loop_target_step hi lrest idx idxs0 a m' tord spans lk sums ap Ht Hok Hfit1) as (lk2 & sm2 & E).
+    rewrite E in H. clear E.
+    destruct (terms_loop P lrest (tord + 1) idxs0 nt maxw d (run_term nt maxw tord spans (wrun g a (S m'))) false lk2
+                (sums ++ [sm2]) ap) as [[[[[[idxs1 sp1] f1] lk1] sums1] ap1]| |] eqn:Er; cbn [bind] in H; try discriminate.
+    injection H as <- <- <- <- <- <-.
+    eapply IH in Er; [| |exact HTL'|exact Hfits'].
+    + rewrite run_terms_cons. exact Er.
+    + cbn [length] in H64. lia.
+Qed.
+
+(* ---- the Counter ---- *)
+Lemma add_count_has k c : forall acc, exists c', In (k, c') (add_count k c acc) /\ c <= c'.
+Proof.
+  induction acc as [|[k0 c0] rest IH]; cbn [add_count].
+  - exists c. split; [left; reflexivity|lia].
+  - destruct (N.eqb_spec k k0) as [->|Hne].
+    + exists (c0 + c). split; [left; reflexivity|lia].
+    + destruct IH as (c' & Hin & Hle). exists c'. split; [right; exact Hin|exact Hle].
+Qed.
+Lemma add_count_old k c : forall acc k1 c1, In (k1, c1) acc -> exists c', In (k1, c') (add_count k c acc) /\ c1 <= c'.
+Proof.
+  induction acc as [|[k0 c0] rest IH]; intros k1 c1 Hin; [destruct Hin|]. cbn [add_count].
+  destruct (N.eqb_spec k k0) as [->|Hne].
+  - destruct Hin as [E|Hin]; [injection E as <- <-; exists (c0 + c); split; [left; reflexivity|lia]|].
+    exists c1. split; [right; exact Hin|lia].
+  - destruct Hin as [E|Hin]; [injection E as <- <-; exists c0; split; [left; reflexivity|lia]|].
+    destruct (IH _ _ Hin) as (c' & Hin' & Hle). exists c'. split; [right; exact Hin'|exact Hle].
+Qed.
+Lemma add_count_keys k c : forall acc k1, In k1 (map fst (add_count k c acc)) -> k1 = k \/ In k1 (map fst acc).
+Proof.
+  induction acc as [|[k0 c0] rest IH]; intros k1 Hin; cbn [add_count] in Hin.
+  - destruct Hin as [<-|[]]. left. reflexivity.
+  - destruct (N.eqb_spec k k0) as [->|Hne]; cbn [map fst In] in *.
+    + destruct Hin as [<-|Hin]; [left; reflexivity|right; right; exact Hin].
+    + destruct Hin as [<-|Hin]; [right; left; reflexivity|]. apply IH in Hin. destruct Hin as [->|Hin]; [left; reflexivity|right; right; exact Hin].
+Qed.
+Lemma add_count_nodup k c : forall acc, NoDup (map fst acc) -> NoDup (map fst (add_count k c acc)).
+Proof.
+  induction acc as [|[k0 c0] rest IH]; intros Hnd; cbn [add_count].
+  - cbn. constructor; [intros []|constructor].
+  - cbn [map fst] in Hnd. inversion Hnd as [|? ? Hnin Hnd']; subst.
+    destruct (N.eqb_spec k k0) as [->|Hne]; cbn [map fst].
+    + constructor; assumption.
+    + constructor; [|apply IH; exact Hnd']. intros Hin. apply add_count_keys in Hin. destruct Hin as [E|Hin]; [congruence|contradiction].
+Qed.
+
+Lemma docs_loop_S f his hi0 i0 irest acc :
+  docs_loop P (S f) his hi0 (i0 :: irest) nt maxw acc =
+  if i0 <? hi0 then
+    do w <- rd 0 P i0;
+    do r <- terms_loop P his 0 (i0 :: irest) nt maxw (dkey w) [] false 0 [] true;
+    let '(idxs', spans, full, _, sums, all_present) := r in
+    docs_loop P f his hi0 idxs' nt maxw
+      (if negb all_present then acc
+       else if full then add_count (dkey w) (min_popcount sums) acc
+       else add_count (dkey w) (N.of_nat (length (collect spans nt maxw))) acc)
+  else Done acc.
+Proof. reflexivity. Qed.
+
+Lemma docs_loop_mono : forall fuel his hi0 idxs acc res, docs_loop P fuel his hi0 idxs nt maxw acc = Done res ->
+  (forall k c, In (k, c) acc -> exists c', In (k, c') res /\ c <= c') /\ (NoDup (map fst acc) -> NoDup (map fst res)).
+Proof.
+  induction fuel as [|f IH]; intros his hi0 idxs acc res H; [discriminate|].
+  destruct idxs as [|i0 irest]; [cbn [docs_loop] in H; injection H as <-; split; [intros k c Hin; exists c; split; [exact Hin|lia]|auto]|].
+  rewrite docs_loop_S in H. destruct (i0 <? hi0).
+  2:{ injection H as <-. split; [intros k c Hin; exists c; split; [exact Hin|lia]|auto]. }
+  destruct (rd 0 P i0) as [w| |]; cbn [bind] in H; try discriminate.
+  destruct (terms_loop P his 0 (i0 :: irest) nt maxw (dkey w) [] false 0 [] true) as [[[[[[idxs1 sp1] f1] lk1] sums1] ap1]| |];
+    cbn [bind] in H; try discriminate.
+  apply IH in H. destruct H as [H1 H2].
+  destruct ap1; cbn [negb] in *; [|split; assumption].
+  destruct f1.
+  - split.
+    + intros k c Hin. destruct (add_count_old (dkey w) (min_popcount sums1) acc k c Hin) as (c1 & Hin1 & Hle1).
+      destruct (H1 _ _ Hin1) as (c2 & Hin2 & Hle2). exists c2. split; [exact Hin2|lia].
+    + intros Hnd. apply H2. apply add_count_nodup. exact Hnd.
+  - split.
+    + intros k c Hin. destruct (add_count_old (dkey w) (N.of_nat (length (collect sp1 nt maxw))) acc k c Hin) as (c1 & Hin1 & Hle1).
+      destruct (H1 _ _ Hin1) as (c2 & Hin2 & Hle2). exists c2. split; [exact Hin2|lia].
+    + intros Hnd. apply H2. apply add_count_nodup. exact Hnd.
+Qed.
+
+(* the outer loop reaches document d, where the pure fold is collected *)
+Lemma docs_loop_target his ams : N.of_nat (length his) <= 64 ->
+  fits nt maxw 0 (map (fun am => wrun g (fst am) (snd am)) ams) [] ->
+  collect (run_terms nt maxw 0 (map (fun am => wrun g (fst am) (snd am)) ams) []) nt maxw <> [] ->
+  forall fuel idxs acc res, TL idxs his ams ->
+  match idxs, ams with i0 :: _, (a0, _) :: _ => (N.to_nat (a0 - i0) < fuel)%nat | _, _ => False end ->
+  docs_loop P fuel his (hd 0 his) idxs nt maxw acc = Done res ->
+  exists c, In (d, c) res /\ 1 <= c.
+Proof.
+  intros H64 Hfits Hcoll. induction fuel as [|f IH]; intros idxs acc res HTL Hfuel H; [discriminate|].
+  inversion HTL as [|i0 hi0 am irest hrest ams0 Hok HTL']; subst; [destruct Hfuel|].
+  destruct am as [a0 m0]. cbn [hd] in H. rewrite docs_loop_S in H.
+  pose proof Hok as (O1 & O2 & O3 & O4 & O5 & O6 & O7).
+  assert (Ha_d : dkey (g a0) = d). { specialize (O6 0%nat ltac:(lia)). rewrite N.add_0_r in O6. exact O6. }
+  assert (Hlt : (i0 <? hi0) = true) by (apply N.ltb_lt; lia). rewrite Hlt in H.
+  rewrite rdP in H by lia. cbn [bind] in H.
+  destruct (terms_loop P (hi0 :: hrest) 0 (i0 :: irest) nt maxw (dkey (g i0)) [] false 0 [] true)
+    as [[[[[[idxs1 sp1] f1] lk1] sums1] ap1]| |] eqn:Er; cbn [bind] in H; try discriminate.
+  destruct (N.eq_dec i0 a0) as [->|Hne].
+  - (* this is document d *)
+    rewrite Ha_d in *.
+    apply terms_loop_target with (ams := (a0, m0) :: ams0) in Er; [|lia|exact HTL|exact Hfits].
+    destruct Er as (-> & -> & ->). cbn [negb] in H.
+    apply docs_loop_mono in H. destruct H as [H1 _].
+    destruct (add_count_has d (N.of_nat (length (collect (run_terms nt maxw 0 (map (fun am => wrun g (fst am) (snd am)) ((a0, m0) :: ams0)) []) nt maxw))) acc)
+      as (c1 & Hin1 & Hle1).
+    destruct (H1 _ _ Hin1) as (c2 & Hin2 & Hle2). exists c2. split; [exact Hin2|].
+    destruct (collect (run_terms nt maxw 0 (map (fun am => wrun g (fst am) (snd am)) ((a0, m0) :: ams0)) []) nt maxw); [congruence|].
+    cbn [length] in Hle1. lia.
+  - (* an earlier document *)
+    assert (Hk : dkey (g i0) < d) by (apply O2; lia).
+    apply terms_loop_gen with (ams := (a0, m0) :: ams0) in Er; [|exact Hk|exact HTL].
+    destruct Er as [HTL1 Hprog].
+    inversion HTL1 as [|i1 hi1 am1 irest1 hrest1 ams1 Hok1 HTL1']; subst.
+    specialize (Hprog eq_refl).
+    apply (IH _ _ _ HTL1) in H; [exact H|].
+    destruct Hok1 as (Q1 & _). lia.
+Qed.
+End Terms.
+
+(* ---------- from segment lists to the cursors ---------- *)
+Definition seg3 : Type := (list N * list N * list N)%type.
+Definition seg_of (tr : seg3) : list N := let '(pre, run, post) := tr in pre ++ run ++ post.
+Definition seg_run (tr : seg3) : list N := let '(_, run, _) := tr in run.
+Definition seg_d (d : N) (tr : seg3) : Prop :=
+  let '(pre, run, post) := tr in
+  (forall w, In w pre -> dkey w < d) /\ run <> [] /\ (forall w, In w run -> dkey w = d) /\
+  match post with [] => True | w :: _ => dkey w <> d end.
+Fixpoint ams_from (off : N) (trs : list seg3) : list (N * nat) :=
+  match trs with
+  | [] => []
+  | (pre, run, post) :: rest =>
+      (off + N.of_nat (length pre), length run) :: ams_from (off + N.of_nat (length (pre ++ run ++ post))) rest
+  end.
+
+Lemma nth_mid {A} (l1 l2 l3 : list A) k dflt : (k < length l2)%nat -> nth (length l1 + k) (l1 ++ l2 ++ l3) dflt = nth k l2 dflt.
+Proof. intros H. rewrite app_nth2 by lia. replace (length l1 + k - length l1)%nat with k by lia. apply app_nth1. exact H. Qed.
+
+Lemma wrun_list g : forall run a, (forall k, (k < length run)%nat -> g (a + N.of_nat k) = nth k run 0) ->
+  wrun g a (length run) = concat (map wcs run).
+Proof.
+  induction run as [|w r IH]; intros a H; [reflexivity|].
+  cbn [length]. rewrite wrun_S. cbn [map concat]. f_equal.
+  - specialize (H 0%nat ltac:(cbn; lia)). rewrite N.add_0_r in H. cbn [nth] in H. rewrite H. reflexivity.
+  - apply IH. intros k Hk. specialize (H (S k) ltac:(cbn; lia)). cbn [nth] in H. rewrite <- H. f_equal. lia.
+Qed.
+
+Lemma layout_TL d : forall trs pm rest l off, Forall (seg_d d) trs ->
+  l = pm ++ concat (map seg_of trs) ++ rest -> off = N.of_nat (length pm) ->
+  TL (fun i => nth (N.to_nat i) l 0) (N.of_nat (length l)) d
+     (removelast (cum off (map seg_of trs))) (tl (cum off (map seg_of trs))) (ams_from off trs).
+Proof.
+  induction trs as [|[[pre run] post] trs IH]; intros pm rest l off HF El Eoff.
+  - cbn. constructor.
+  - inversion HF as [|? ? Hd HF']; subst off. cbn [map cum ams_from concat] in *. rewrite removelast_cum. cbn [tl].
+    rewrite (cum_hd _ (map seg_of trs)) at 2.
+    destruct Hd as (D1 & D2 & D3 & D4).
+    assert (El' : l = pm ++ pre ++ run ++ (post ++ concat (map seg_of trs) ++ rest)).
+    { rewrite El. unfold seg_of at 1. rewrite <- !app_assoc. reflexivity. }
+    constructor.
+    + unfold term_ok. change (seg_of (pre, run, post)) with (pre ++ run ++ post). rewrite !app_length.
+      split; [lia|]. split.
+      { intros j Hj1 Hj2. apply D1. rewrite El'.
+        replace (N.to_nat j) with (length pm + (N.to_nat j - length pm))%nat by lia.
+        rewrite app_nth2_plus. rewrite app_nth1 by lia. apply nth_In. lia. }
+      split; [lia|]. split; [rewrite El'; rewrite !app_length; lia|].
+      split; [destruct run; [congruence|cbn; lia]|]. split.
+      { intros k Hk. apply D3. rewrite El'.
+        replace (N.to_nat (N.of_nat (length pm) + N.of_nat (length pre) + N.of_nat k)) with (length pm + (length pre + k))%nat by lia.
+        rewrite app_nth2_plus. rewrite nth_mid by exact Hk. apply nth_In. exact Hk. }
+      { destruct post as [|w0 post'].
+        - left. cbn [length]. lia.
+        - right. rewrite El'.
+          replace (N.to_nat (N.of_nat (length pm) + N.of_nat (length pre) + N.of_nat (length run))) with (length pm + (length pre + (length run + 0)))%nat by lia.
+          rewrite app_nth2_plus, app_nth2_plus, app_nth2_plus. cbn [app nth]. exact D4. }
+    + apply (IH (pm ++ seg_of (pre, run, post)) rest); [exact HF'| |].
+      * rewrite El. rewrite <- !app_assoc. reflexivity.
+      * change (seg_of (pre, run, post)) with (pre ++ run ++ post). rewrite !app_length. lia.
+Qed.
+
+Definition seg_evs (trs : list seg3) : list (list N) := map (fun tr => concat (map wcs (seg_run tr))) trs.
+
+Lemma layout_evs : forall trs pm rest l off,
+  l = pm ++ concat (map seg_of trs) ++ rest -> off = N.of_nat (length pm) ->
+  map (fun am => wrun (fun i => nth (N.to_nat i) l 0) (fst am) (snd am)) (ams_from off trs) = seg_evs trs.
+Proof.
+  induction trs as [|[[pre run] post] trs IH]; intros pm rest l off El Eoff; [reflexivity|].
+  cbn [ams_from map seg_evs fst snd seg_run]. f_equal.
+  - apply wrun_list. intros k Hk. subst off.
+    replace (N.to_nat (N.of_nat (length pm) + N.of_nat (length pre) + N.of_nat k)) with (length pm + (length pre + k))%nat by lia.
+    rewrite El. cbn [map concat]. change (seg_of (pre, run, post)) with (pre ++ run ++ post). rewrite <- !app_assoc.
+    rewrite app_nth2_plus. apply nth_mid. exact Hk.
+  - apply (IH (pm ++ pre ++ run ++ post) rest).
+    + rewrite El. cbn [map concat]. change (seg_of (pre, run, post)) with (pre ++ run ++ post). rewrite <- !app_assoc. reflexivity.
+    + subst off. rewrite !app_length. lia.
+Qed.
+
+Lemma store_many_nodup : forall ivs dense v dd c, store_many dense ivs = Done v -> NoDup (map fst ivs) ->
+  In (N.of_nat dd, c) ivs -> nth dd v 0 = c.
+Proof.
+  induction ivs as [|[i c0] rest IH]; intros dense v dd c H Hnd Hin; [destruct Hin|].
+  cbn [store_many] in H. apply bind_inv in H as (d1 & H1 & H2). unfold store in H1.
+  destruct (i <? N.of_nat (length dense)) eqn:E; [|discriminate]. apply N.ltb_lt in E. injection H1 as <-.
+  cbn [map fst] in Hnd. inversion Hnd as [|? ? Hnin Hnd']; subst.
+  destruct Hin as [Heq|Hin].
+  - injection Heq as -> ->.
+    (* later stores do not touch index dd *)
+    pose proof (store_many_inv _ _ _ H2) as [Hlen Hdiff].
+    destruct (N.eq_dec (nth dd v 0) (nth dd (list_set dense (N.to_nat (N.of_nat dd)) c) 0)) as [Heq|Hne].
+    + rewrite Heq. rewrite list_set_nth by lia. rewrite Nat2N.id, Nat.eqb_refl. reflexivity.
+    + apply Hdiff in Hne. destruct Hne as [c' Hc']. exfalso. apply Hnin. change (N.of_nat dd) with (fst (N.of_nat dd, c')). apply in_map. exact Hc'.
+  - eapply IH; [exact H2|exact Hnd'|exact Hin].
+Qed.
+
+(* ---------- T2: span_search credits document d ---------- *)
+Theorem span_search_target encs slop pf trs d p C :
+  intersect_all encs = AOk (concat (map seg_of trs), cum 0 (map seg_of trs)) ->
+  Forall (seg_d d) trs ->
+  (1 <= length trs)%nat -> (length trs <= 64)%nat -> p + N.of_nat (length trs) <= 31 ->
+  Forall (Forall (fun c => c < 31)) (seg_evs trs) ->
+  (forall k, (k < length trs)%nat -> In (p + N.of_nat k) (nth k (seg_evs trs) [])) ->
+  Forall (fun cs => (length cs <= C)%nat) (seg_evs trs) -> ((2 ^ length trs - 1) * C < 512)%nat ->
+  span_search encs slop = AOk pf ->
+  exists c, In (d, c) pf /\ 1 <= c /\ NoDup (map fst pf).
+Proof.
+  intros Hia Hsegs H1 H64 Hp H31 Hocc HC Hbound H.
+  unfold span_search in H. rewrite Hia in H. cbn [abind] in H.
+  apply lift_inv in H.
+  set (sl := map seg_of trs) in *. set (l := concat sl) in *.
+  rewrite cum_length in H. replace (S (length sl) - 1)%nat with (length trs) in H by (unfold sl; rewrite map_length; lia).
+  set (nt := N.of_nat (length trs)) in *. set (maxw := Z.of_N (nt + slop)) in *.
+  set (g := fun i : N => nth (N.to_nat i) l 0).
+  assert (rdP : forall i, i < N.of_nat (length l) -> rd 0 (mem_of_list l) i = Done (g i)).
+  { intros i Hi. rewrite rd_mem_of_list. apply lrd_ok. exact Hi. }
+  assert (El : l = [] ++ concat (map seg_of trs) ++ []) by (cbn [app]; rewrite app_nil_r; reflexivity).
+  pose proof (layout_TL d trs [] [] l 0 Hsegs El eq_refl) as HTL.
+  pose proof (layout_evs trs [] [] l 0 El eq_refl) as Hevs.
+  fold g in HTL, Hevs. fold sl in HTL.
+  assert (Hlen_evs : length (seg_evs trs) = length trs) by (unfold seg_evs; apply map_length).
+  assert (Hfits : fits nt maxw 0 (seg_evs trs) []).
+  { apply (fits_bound nt maxw C); [rewrite Hlen_evs; lia|exact HC|]. rewrite Hlen_evs. cbn [length]. lia. }
+  assert (Hcoll : collect (run_terms nt maxw 0 (seg_evs trs) []) nt maxw <> []).
+  { apply (span_table_keeps_exact nt maxw p).
+    - unfold nt. lia.
+    - unfold nt. lia.
+    - unfold maxw, nt. lia.
+    - unfold nt. lia.
+    - rewrite Hlen_evs. reflexivity.
+    - exact H31.
+    - rewrite Hlen_evs. exact Hocc. }
+  rewrite <- Hevs in Hfits, Hcoll.
+  assert (Hhis : N.of_nat (length (tl (cum 0 sl))) <= 64).
+  { rewrite tl_cum_length. unfold sl. rewrite map_length. lia. }
+  assert (Hnd : NoDup (map fst pf)).
+  { apply (docs_loop_mono (mem_of_list l) g (N.of_nat (length l)) rdP nt maxw) in H. destruct H as [_ H]. apply H. constructor. }
+  destruct (docs_loop_target (mem_of_list l) g (N.of_nat (length l)) rdP nt maxw d (tl (cum 0 sl)) (ams_from 0 trs) Hhis Hfits Hcoll
+              (S (length l)) (removelast (cum 0 sl)) [] pf HTL) as (c & Hin & Hc).
+  - inversion HTL as [|i0 hi0 am irest hrest ams0 Hok HTL' E1 E2 E3].
+    + destruct trs as [|[[pre run] post] trs']; [cbn [length] in H1; lia|]. cbn [ams_from] in *. discriminate.
+    + destruct am as [a0 m0]. destruct Hok as (O1 & O2 & O3 & O4 & O5 & _). lia.
+  - exact H.
+  - exists c. repeat split; assumption.
+Qed.
+
+(* ---------- L3: _intersect_all keeps the words of an exact occurrence (when header 0 is not a candidate) ---------- *)
+
+(* every word of an encoded posting list is word_of k b s with a small bucket *)
+Definition wform (w : N) : Prop := exists k b s, w = word_of k b s /\ k < 2^28 /\ b * 18 < 2^18 /\ s < 2^18 /\ s <> 0.
+
+Lemma enc_wform_aux : forall rest k b s, sorted2 rest -> bounded rest -> cur_ok k b s rest -> b * 18 < 2^18 ->
+  Forall wform (encode_aux (Some (k, b, s)) rest).
+Proof.
+  intros rest k b s Hs Hb Hok. revert rest k b s Hs Hb Hok.
+  apply (enc_ind (fun k b s rest => b * 18 < 2^18 -> Forall wform (encode_aux (Some (k, b, s)) rest))).
+  - intros k b s (Hk & Hb & Hs & Hnz & _) Hb18. cbn [encode_aux]. constructor; [|constructor].
+    exists k, b, s. repeat split; assumption.
+  - intros k b s p rest _ Eb _ _ _ IH Hb18. rewrite encode_aux_same by assumption. apply IH. exact Hb18.
+  - intros k b s k' p' rest (Hk & Hb & Hs & Hnz & _) E _ Hk' Hp' _ IH Hb18.
+    rewrite encode_aux_diff by assumption. constructor.
+    + exists k, b, s. repeat split; assumption.
+    + apply IH. pose proof (N.mul_div_le p' 18 ltac:(lia)). lia.
+Qed.
+
+Lemma enc_wform ps : sorted2 ps -> bounded ps -> Forall wform (encode_spec ps).
+Proof.
+  intros Hs Hb. destruct ps as [|[k p] rest]; [constructor|]. unfold encode_spec. cbn [encode_aux].
+  pose proof (cur_ok_init k p rest Hs Hb) as Hok.
+  inversion Hb as [|x l [Hk Hp] Hb' Ex]; subst. destruct Hs as [_ Hs']. cbn [fst snd] in *.
+  apply enc_wform_aux; try assumption. pose proof (N.mul_div_le p 18 ltac:(lia)). lia.
+Qed.
+
+Definition Hd (x : N) : N := N.land x header_mask.
+Lemma header_mask_val : header_mask = 18446744073709289472. Proof. vm_compute. reflexivity. Qed.
+Lemma header_of_Hd x : header_of x = Hd x.
+Proof. unfold header_of, Hd. rewrite hmask_val, header_mask_val. reflexivity. Qed.
+Lemma Hd_arith x : x < 2^64 -> Hd x = (x / 2^18) * 2^18.
+Proof. intros H. rewrite <- header_of_Hd. apply header_as_arith. exact H. Qed.
+Lemma Hd_mono x y : x <= y -> y < 2^64 -> Hd x <= Hd y.
+Proof.
+  intros Hxy Hy. rewrite !Hd_arith by lia. apply N.mul_le_mono_r. apply N.div_le_mono; [discriminate|exact Hxy].
+Qed.
+Lemma Hd_le x : x < 2^64 -> Hd x <= x.
+Proof. intros H. rewrite Hd_arith by exact H. rewrite N.mul_comm. apply N.mul_div_le. discriminate. Qed.
+Lemma Hd_idem x : x < 2^64 -> Hd (Hd x) = Hd x.
+Proof.
+  intros H. rewrite (Hd_arith (Hd x)); [|pose proof (Hd_le x H); lia].
+  rewrite (Hd_arith x H). rewrite N.div_mul by discriminate. reflexivity.
+Qed.
+Lemma Hd_word k b s : k < 2^28 -> b < 2^18 -> s < 2^18 -> Hd (word_of k b s) = word_of k b 0.
+Proof. intros. rewrite <- header_of_Hd. apply header_of_word; assumption. Qed.
+Lemma Hd_add_unit x : x + 2^18 < 2^64 -> Hd (x + 2^18) = Hd x + 2^18.
+Proof.
+  intros H. rewrite !Hd_arith by lia. replace (x + 2^18) with (x + 1 * 2^18) by lia.
+  rewrite N.div_add by discriminate. lia.
+Qed.
+Lemma hdr_unit_val : hdr_unit = 2^18. Proof. reflexivity. Qed.
+Lemma lowbit_hm : lowbit header_mask = 2^18. Proof. vm_compute. reflexivity. Qed.
+
+(* sortedness bookkeeping *)
+Definition SSle := StronglySorted N.le.
+Definition lt64 (l : list N) : Prop := Forall (fun x => x < 2^64) l.
+
+Lemma ss_nth_le : forall l a b, SSle l -> (a <= b)%nat -> (b < length l)%nat -> nth a l 0 <= nth b l 0.
+Proof.
+  induction l as [|x l IH]; intros a b Hs Hab Hb; cbn [length] in Hb; [lia|].
+  inversion Hs as [|? ? Hs' Hf]; subst. destruct b as [|b].
+  - assert (a = 0)%nat by lia. subst. lia.
+  - destruct a as [|a]; cbn [nth]; [|apply IH; [exact Hs'|lia|lia]].
+    rewrite Forall_forall in Hf. apply Hf. apply nth_In. lia.
+Qed.
+
+Lemma take_idx_in l idxs x : In x (take_idx l idxs) <-> exists a, In a idxs /\ x = nth (N.to_nat a) l 0.
+Proof.
+  unfold take_idx. rewrite in_map_iff. split.
+  - intros (a & H1 & H2). exists a. split; [exact H2|symmetry; exact H1].
+  - intros (a & H1 & H2). exists a. split; [symmetry; exact H2|exact H1].
+Qed.
+
+Lemma take_idx_ss l : SSle l -> forall idxs, StronglySorted N.le idxs -> Forall (fun a => a < N.of_nat (length l)) idxs ->
+  SSle (take_idx l idxs).
+Proof.
+  intros Hl. induction idxs as [|a idxs IH]; intros Hs Hr; cbn [take_idx map]; [constructor|].
+  inversion Hs as [|? ? Hs' Hf]; subst. inversion Hr as [|? ? Ha Hr']; subst.
+  constructor; [apply IH; assumption|]. apply Forall_forall. intros x Hx. apply take_idx_in in Hx. destruct Hx as (b & Hb & ->).
+  rewrite Forall_forall in Hf, Hr'. specialize (Hf b Hb). specialize (Hr' b Hb).
+  apply ss_nth_le; [exact Hl|lia|lia].
+Qed.
+
+Lemma take_idx_forall (Q : N -> Prop) l idxs : Forall Q l -> Forall (fun a => a < N.of_nat (length l)) idxs -> Forall Q (take_idx l idxs).
+Proof.
+  intros Hl Hr. apply Forall_forall. intros x Hx. apply take_idx_in in Hx. destruct Hx as (a & Ha & ->).
+  rewrite Forall_forall in Hl, Hr. apply Hl. apply nth_In. specialize (Hr a Ha). lia.
+Qed.
+
+Lemma sslt_ssle l : StronglySorted N.lt l -> StronglySorted N.le l.
+Proof.
+  induction 1 as [|x l Hs IH Hf]; constructor; [exact IH|]. eapply Forall_impl; [|exact Hf]. cbn. intros; lia.
+Qed.
+
+Lemma ss_map_mono (f : N -> N) l : (forall x y, In x l -> In y l -> x <= y -> f x <= f y) -> SSle l -> SSle (map f l).
+Proof.
+  intros Hf Hs. induction Hs as [|x l Hs IH Hfa]; cbn [map]; [constructor|].
+  constructor.
+  - apply IH. intros a b Ha Hb. apply Hf; right; assumption.
+  - apply Forall_forall. intros y Hy. apply in_map_iff in Hy. destruct Hy as (z & <- & Hz).
+    rewrite Forall_forall in Hfa. apply Hf; [left; reflexivity|right; exact Hz|apply Hfa; exact Hz].
+Qed.
+
+Lemma ss_msorted_hm l : SSle l -> lt64 l -> Intersect_Correct.msorted l header_mask.
+Proof.
+  intros Hs H64. apply Intersect_Correct.sorted_msorted. apply StronglySorted_Sorted. unfold mvals.
+  apply (ss_map_mono (fun x => N.land x header_mask)); [|exact Hs].
+  intros x y Hx Hy Hxy. apply (Hd_mono x y Hxy). unfold lt64 in H64. rewrite Forall_forall in H64. apply H64. exact Hy.
+Qed.
+
+Lemma land_wmask x : x < 2^64 -> N.land x wmask = x.
+Proof. intros H. change wmask with (N.ones 64). rewrite N.land_ones. apply N.mod_small. exact H. Qed.
+
+Lemma ss_msorted_w l : SSle l -> lt64 l -> Intersect_Correct.msorted l wmask.
+Proof.
+  intros Hs H64. apply Intersect_Correct.sorted_msorted. apply StronglySorted_Sorted. unfold mvals.
+  replace (map (fun x => N.land x wmask) l) with l; [exact Hs|].
+  symmetry. rewrite <- (map_id l) at 2. apply map_ext_in. intros x Hx. apply land_wmask. unfold lt64 in H64. rewrite Forall_forall in H64. apply H64. exact Hx.
+Qed.
+
+Lemma mrg_in z l r : In z (mrg l r) <-> In z l \/ In z r.
+Proof.
+  pose proof (mrg_perm l r) as Hp. split.
+  - intros H. apply (Permutation_in _ (Permutation_sym Hp)) in H. apply in_app_iff in H. exact H.
+  - intros H. apply (Permutation_in _ Hp). apply in_app_iff. exact H.
+Qed.
+Lemma mrg_length l r : length (mrg l r) = (length l + length r)%nat.
+Proof. rewrite <- (Permutation_length (mrg_perm l r)). apply app_length. Qed.
+Lemma mrg_lt64 l r : lt64 l -> lt64 r -> lt64 (mrg l r).
+Proof.
+  unfold lt64. rewrite !Forall_forall. intros Hl Hr z Hz. apply mrg_in in Hz. destruct Hz; auto.
+Qed.
+
+(* ---- the pair lists of the kernel specs ---- *)
+Section Pairs.
+Variables (tf : N -> N) (ML MR : list N).
+Let pairs := flat_map (genf tf ML MR) (enum ML).
+
+Lemma pairs_in a b : In (a, b) pairs <->
+  a < N.of_nat (length ML) /\ first_index (nth (N.to_nat a) ML 0) ML = Some a /\ first_index (tf (nth (N.to_nat a) ML 0)) MR = Some b.
+Proof.
+  unfold pairs. rewrite in_flat_map. split.
+  - intros ([a0 v] & Hin & Hp). apply in_enum in Hin. destruct Hin as [H1 H2]. apply genf_in in Hp. destruct Hp as (-> & H3 & H4).
+    subst v. repeat split; assumption.
+  - intros (H1 & H2 & H3). exists (a, nth (N.to_nat a) ML 0). split; [apply in_enum; split; [exact H1|reflexivity]|].
+    apply genf_in. repeat split; assumption.
+Qed.
+
+Lemma pairs_fst_sorted : StronglySorted N.lt (map fst pairs).
+Proof. apply ssorted_map_fst. apply gen_sorted. Qed.
+
+Lemma pairs_fst_range : Forall (fun a => a < N.of_nat (length ML)) (map fst pairs).
+Proof.
+  apply Forall_forall. intros a Ha. apply in_map_iff in Ha. destruct Ha as ([a' b] & <- & Hin). apply pairs_in in Hin. tauto.
+Qed.
+
+Lemma pairs_snd_range : Forall (fun b => b < N.of_nat (length MR)) (map snd pairs).
+Proof.
+  apply Forall_forall. intros b Hb. apply in_map_iff in Hb. destruct Hb as ([a b'] & <- & Hin). apply pairs_in in Hin.
+  destruct Hin as (_ & _ & H). apply first_index_some in H. tauto.
+Qed.
+
+Lemma pairs_hit v : In v ML -> In (tf v) MR -> exists a b, In (a, b) pairs /\ nth (N.to_nat a) ML 0 = v.
+Proof.
+  intros H1 H2. destruct (first_index_ex ML v H1) as [a Ha]. destruct (first_index_ex MR (tf v) H2) as [b Hb].
+  pose proof (first_index_some _ _ _ Ha) as (A1 & A2 & _).
+  exists a, b. split; [|exact A2]. apply pairs_in. rewrite A2. repeat split; assumption.
+Qed.
+
+Lemma pairs_snd_val a b : In (a, b) pairs -> nth (N.to_nat b) MR 0 = tf (nth (N.to_nat a) ML 0).
+Proof. intros H. apply pairs_in in H. destruct H as (_ & _ & H). apply first_index_some in H. tauto. Qed.
+
+End Pairs.
+
+Lemma sslt_length : forall l lo n, StronglySorted N.lt l -> Forall (fun a => lo <= a /\ a < n) l -> (length l <= N.to_nat (n - lo))%nat.
+Proof.
+  induction l as [|x l IH]; intros lo n Hs Hr; cbn [length]; [lia|].
+  inversion Hs as [|? ? Hs' Hf]; subst. inversion Hr as [|? ? [Hx1 Hx2] Hr']; subst.
+  assert (Hl : (length l <= N.to_nat (n - (x + 1)))%nat).
+  { apply IH; [exact Hs'|]. apply Forall_forall. intros a Ha. rewrite Forall_forall in Hf, Hr'. specialize (Hf a Ha). specialize (Hr' a Ha). lia. }
+  lia.
+Qed.
+
+Lemma sslt_len_le l n : StronglySorted N.lt l -> Forall (fun a => a < N.of_nat n) l -> (length l <= n)%nat.
+Proof.
+  intros Hs Hr. pose proof (sslt_length l 0 (N.of_nat n) Hs) as H. rewrite N.sub_0_r, Nat2N.id in H. apply H.
+  eapply Forall_impl; [|exact Hr]. cbn. intros; lia.
+Qed.
+
+(* second components are non-decreasing when the right list is strictly increasing *)
+Lemma pairs_snd_sorted tf ML MR :
+  (forall a a', a <= a' -> a' < N.of_nat (length ML) -> nth (N.to_nat a) ML 0 <= nth (N.to_nat a') ML 0) ->
+  (forall x y, x <= y -> tf x <= tf y) ->
+  (forall b b', b < b' -> b' < N.of_nat (length MR) -> nth (N.to_nat b) MR 0 < nth (N.to_nat b') MR 0) ->
+  StronglySorted N.le (map snd (flat_map (genf tf ML MR) (enum ML))).
+Proof.
+  intros HML Htf HMR.
+  assert (Hgen : forall q, StronglySorted Intersect_Correct.asc q -> (forall a b, In (a, b) q -> In (a, b) (flat_map (genf tf ML MR) (enum ML))) ->
+                 StronglySorted N.le (map snd q)).
+  { induction q as [|[a b] q IH]; intros Hs Hsub; cbn [map]; [constructor|].
+    inversion Hs as [|? ? Hs' Hf]; subst. constructor.
+    - apply IH; [exact Hs'|]. intros a' b' H. apply Hsub. right. exact H.
+    - apply Forall_forall. intros b' Hb'. apply in_map_iff in Hb'. destruct Hb' as ([a2 b2] & <- & Hin2). cbn [snd].
+      rewrite Forall_forall in Hf. specialize (Hf _ Hin2). unfold Intersect_Correct.asc in Hf. cbn [fst] in Hf.
+      pose proof (Hsub a b (or_introl eq_refl)) as P1. pose proof (Hsub a2 b2 (or_intror Hin2)) as P2.
+      pose proof (pairs_snd_val tf ML MR _ _ P1) as V1. pose proof (pairs_snd_val tf ML MR _ _ P2) as V2.
+      apply (pairs_in tf ML MR) in P1, P2. destruct P1 as (A1 & _ & F1). destruct P2 as (A2 & _ & F2).
+      apply first_index_some in F1, F2. destruct F1 as (B1 & _ & _). destruct F2 as (B2 & _ & _).
+      destruct (N.le_gt_cases b b2) as [Hle|Hgt]; [exact Hle|].
+      specialize (HMR b2 b Hgt B1). rewrite V1, V2 in HMR.
+      specialize (HML a a2 ltac:(lia) A2). specialize (Htf _ _ HML). lia. }
+  apply Hgen; [apply gen_sorted|]. intros a b H. exact H.
+Qed.
+
+(* ---- posting-like lists ---- *)
+Definition sm (x : N) : Prop := x + 2^18 < 2^64.
+Definition PL (l : list N) : Prop := Forall wform l /\ StronglySorted N.lt (map Hd l) /\ N.of_nat (length l) < 2^50.
+
+Lemma wform_sm w : wform w -> sm w.
+Proof. intros (k & b & s & -> & Hk & Hb & Hs & _). unfold sm, word_of. pows. lia. Qed.
+Lemma sm_lt64 x : sm x -> x < 2^64.
+Proof. unfold sm. lia. Qed.
+Lemma sm_Hd x : sm x -> sm (Hd x).
+Proof. intros H. pose proof (Hd_le x (sm_lt64 x H)). unfold sm in *. lia. Qed.
+Lemma Forall_sm_lt64 l : Forall sm l -> lt64 l.
+Proof. intros H. eapply Forall_impl; [|exact H]. apply sm_lt64. Qed.
+
+Lemma Hd_lt_lt x y : x < 2^64 -> y < 2^64 -> Hd x < Hd y -> x < y.
+Proof.
+  intros Hx Hy H. rewrite !Hd_arith in H by assumption.
+  assert (x / 2^18 < y / 2^18) by nia.
+  pose proof (N.div_mod x (2^18) ltac:(discriminate)). pose proof (N.mod_lt x (2^18) ltac:(discriminate)).
+  pose proof (N.div_mod y (2^18) ltac:(discriminate)). nia.
+Qed.
+
+Lemma PL_sm l : PL l -> Forall sm l.
+Proof. intros (H & _ & _). eapply Forall_impl; [|exact H]. apply wform_sm. Qed.
+
+Lemma PL_ssle l : PL l -> SSle l.
+Proof.
+  intros HPL. pose proof (Forall_sm_lt64 l (PL_sm l HPL)) as H64. destruct HPL as (_ & Hs & _).
+  induction l as [|x l IH]; [constructor|]. cbn [map] in Hs. inversion Hs as [|? ? Hs' Hf]; subst.
+  inversion H64 as [|? ? Hx H64']; subst. constructor; [apply IH; assumption|].
+  apply Forall_forall. intros y Hy. rewrite Forall_forall in Hf, H64'.
+  assert (Hd x < Hd y) by (apply Hf; apply in_map; exact Hy). apply N.lt_le_incl. apply Hd_lt_lt; auto.
+Qed.
+
+Lemma sslt_nth_lt : forall l a b, StronglySorted N.lt l -> (a < b)%nat -> (b < length l)%nat -> nth a l 0 < nth b l 0.
+Proof.
+  induction l as [|x l IH]; intros a b Hs Hab Hb; cbn [length] in Hb; [lia|].
+  inversion Hs as [|? ? Hs' Hf]; subst. destruct b as [|b]; [lia|]. destruct a as [|a]; cbn [nth].
+  - rewrite Forall_forall in Hf. apply Hf. apply nth_In. lia.
+  - apply IH; [exact Hs'|lia|lia].
+Qed.
+
+Lemma hm_ne0 : header_mask <> 0. Proof. rewrite header_mask_val. discriminate. Qed.
+Lemma hm_ltW : header_mask < W64. Proof. rewrite header_mask_val. reflexivity. Qed.
+
+Lemma mvals_Hd l : mvals l header_mask = map Hd l.
+Proof. reflexivity. Qed.
+
+Section Pair.
+Variables curr nxt : list N.
+Hypothesis HPc : PL curr.
+Hypothesis HPn : PL nxt.
+
+Let c64 := Forall_sm_lt64 curr (PL_sm curr HPc).
+Let n64 := Forall_sm_lt64 nxt (PL_sm nxt HPn).
+
+Lemma PL_msorted l : PL l -> Intersect_Correct.msorted l header_mask.
+Proof. intros H. apply ss_msorted_hm; [apply PL_ssle; exact H|apply Forall_sm_lt64, PL_sm; exact H]. Qed.
+
+Lemma PL_len62 l : PL l -> N.of_nat (length l) < 2^62.
+Proof. intros (_ & _ & H). eapply N.lt_trans; [exact H|reflexivity]. Qed.
+
+(* the three candidate index lists of one direction *)
+Lemma idx_lists (l r : list N) (tf : N -> N) : PL l -> PL r -> (forall x y, x <= y -> tf x <= tf y) ->
+  let pairs := flat_map (genf tf (map Hd l) (map Hd r)) (enum (map Hd l)) in
+  SSle (take_idx l (map fst pairs)) /\ SSle (take_idx r (map snd pairs)) /\
+  Forall sm (take_idx l (map fst pairs)) /\ Forall sm (take_idx r (map snd pairs)) /\
+  (length (map fst pairs) <= length l)%nat /\ (length (map snd pairs) <= length l)%nat.
+Proof.
+  intros Hl Hr Htf pairs.
+  pose proof (pairs_fst_sorted tf (map Hd l) (map Hd r)) as F1.
+  pose proof (pairs_fst_range tf (map Hd l) (map Hd r)) as F2. rewrite map_length in F2.
+  pose proof (pairs_snd_range tf (map Hd l) (map Hd r)) as F3. rewrite map_length in F3.
+  assert (F4 : StronglySorted N.le (map snd pairs)).
+  { apply pairs_snd_sorted; [| exact Htf |].
+    - intros a a' Ha Ha'. rewrite map_length in Ha'. change 0 with (Hd 0) at 1 2. rewrite !map_nth.
+      apply Hd_mono; [apply ss_nth_le; [apply PL_ssle; exact Hl|lia|lia]|].
+      pose proof (Forall_sm_lt64 l (PL_sm l Hl)) as H64. unfold lt64 in H64. rewrite Forall_forall in H64. apply H64, nth_In. lia.
+    - intros b b' Hb Hb'. rewrite map_length in Hb'. destruct Hr as (_ & Hs & _).
+      apply sslt_nth_lt; [exact Hs|lia|rewrite map_length; lia]. }
+  fold pairs in F1, F2, F3, F4.
+  split; [apply take_idx_ss; [apply PL_ssle; exact Hl|apply sslt_ssle; exact F1|exact F2]|].
+  split; [apply take_idx_ss; [apply PL_ssle; exact Hr|exact F4|exact F3]|].
+  split; [apply take_idx_forall; [apply PL_sm; exact Hl|exact F2]|].
+  split; [apply take_idx_forall; [apply PL_sm; exact Hr|exact F3]|].
+  assert (L1 : (length (map fst pairs) <= length l)%nat) by (apply sslt_len_le; assumption).
+  split; [exact L1|]. rewrite map_length in *. exact L1.
+Qed.
+End Pair.
+
+Definition P_id (l r : list N) := flat_map (genf (fun v => v) (map Hd l) (map Hd r)) (enum (map Hd l)).
+Definition P_adj (l r : list N) := flat_map (genf (fun v => v + 2^18) (map Hd l) (map Hd r)) (enum (map Hd l)).
+
+Lemma drop_spec_eq l r : intersect_drop_spec l r header_mask = (map fst (P_id l r), map snd (P_id l r)).
+Proof. reflexivity. Qed.
+Lemma adj_spec_eq l r : adjacent_spec l r header_mask (2^18) = (map fst (P_adj l r), map snd (P_adj l r)).
+Proof. reflexivity. Qed.
+
+Lemma in_map_Hd_nth l a : (N.to_nat a < length l)%nat -> nth (N.to_nat a) (map Hd l) 0 = Hd (nth (N.to_nat a) l 0).
+Proof. intros _. change 0 with (Hd 0) at 1. apply map_nth. Qed.
+
+Lemma ia_pair_ok curr nxt : PL curr -> PL nxt ->
+  exists lhs rhs, ia_pair curr nxt = AOk (lhs, rhs) /\
+    SSle lhs /\ SSle rhs /\ Forall sm lhs /\ Forall sm rhs /\
+    (length lhs <= 3 * (length curr + length nxt))%nat /\ (length rhs <= 3 * (length curr + length nxt))%nat /\
+    (forall h, In h (map Hd curr) -> In h (map Hd nxt) \/ In (h + 2^18) (map Hd nxt) -> In h (map Hd rhs)) /\
+    (forall x, In x lhs -> 2^18 <= x \/ In (Hd x) (map Hd curr)).
+Proof.
+  intros Hc Hn. unfold ia_pair.
+  rewrite (intersect_drop_correct curr nxt header_mask (PL_msorted curr Hc) (PL_msorted nxt Hn) (PL_len62 curr Hc) (PL_len62 nxt Hn)).
+  cbn [lift abind]. rewrite drop_spec_eq. cbn [fst snd].
+  rewrite (adjacent_correct curr nxt header_mask (PL_msorted curr Hc) (PL_msorted nxt Hn) (PL_len62 curr Hc) (PL_len62 nxt Hn) hm_ne0 hm_ltW).
+  cbn [lift abind]. rewrite lowbit_hm, adj_spec_eq. cbn [fst snd].
+  rewrite !merge_model. cbn [lift abind].
+  rewrite (adjacent_correct nxt curr header_mask (PL_msorted nxt Hn) (PL_msorted curr Hc) (PL_len62 nxt Hn) (PL_len62 curr Hc) hm_ne0 hm_ltW).
+  cbn [lift abind]. rewrite lowbit_hm, adj_spec_eq. cbn [fst snd].
+  rewrite !merge_model. cbn [lift abind].
+  set (IH := map header_of (take_idx curr (map fst (P_id curr nxt)))).
+  set (A1l := take_idx curr (map fst (P_adj curr nxt))). set (A1r := take_idx nxt (map snd (P_adj curr nxt))).
+  set (A2l := take_idx nxt (map fst (P_adj nxt curr))). set (A2r := take_idx curr (map snd (P_adj nxt curr))).
+  eexists _, _. split; [reflexivity|].
+  assert (Mid : forall x y : N, x <= y -> (fun v : N => v) x <= (fun v : N => v) y) by (intros; assumption).
+  assert (Madd : forall x y : N, x <= y -> (fun v : N => v + 2^18) x <= (fun v : N => v + 2^18) y) by (intros; cbn; lia).
+  destruct (idx_lists curr nxt (fun v => v) Hc Hn Mid) as (I1 & _ & I3 & _ & I5 & _). fold (P_id curr nxt) in I1, I3, I5.
+  destruct (idx_lists curr nxt (fun v => v + 2^18) Hc Hn Madd) as (B1 & B2 & B3 & B4 & B5 & B6). fold (P_adj curr nxt) in B1, B2, B3, B4, B5, B6.
+  destruct (idx_lists nxt curr (fun v => v + 2^18) Hn Hc Madd) as (C1 & C2 & C3 & C4 & C5 & C6). fold (P_adj nxt curr) in C1, C2, C3, C4, C5, C6.
+  fold A1l in B1, B3. fold A1r in B2, B4. fold A2l in C1, C3. fold A2r in C2, C4.
+  assert (IHs : SSle IH).
+  { unfold IH. apply ss_map_mono; [|exact I1]. intros x y Hx Hy Hxy. rewrite !header_of_Hd. apply Hd_mono; [exact Hxy|].
+    rewrite Forall_forall in I3. apply sm_lt64, I3, Hy. }
+  assert (IHm : Forall sm IH).
+  { unfold IH. apply Forall_forall. intros z Hz. apply in_map_iff in Hz. destruct Hz as (w & <- & Hw).
+    rewrite header_of_Hd. apply sm_Hd. rewrite Forall_forall in I3. apply I3, Hw. }
+  assert (IHl : (length IH <= length curr)%nat) by (unfold IH; rewrite map_length; unfold take_idx; rewrite map_length; exact I5).
+  assert (L1l : (length A1l <= length curr)%nat) by (unfold A1l, take_idx; rewrite map_length; exact B5).
+  assert (L1r : (length A1r <= length curr)%nat) by (unfold A1r, take_idx; rewrite map_length; exact B6).
+  assert (L2l : (length A2l <= length nxt)%nat) by (unfold A2l, take_idx; rewrite map_length; exact C5).
+  assert (L2r : (length A2r <= length nxt)%nat) by (unfold A2r, take_idx; rewrite map_length; exact C6).
+  split; [apply mrg_ssorted; [apply mrg_ssorted; assumption|assumption]|].
+  split; [apply mrg_ssorted; [apply mrg_ssorted; assumption|assumption]|].
+  assert (Fm : forall l r, Forall sm l -> Forall sm r -> Forall sm (mrg l r)).
+  { intros l r Hl Hr. apply Forall_forall. intros z Hz. apply mrg_in in Hz. rewrite Forall_forall in Hl, Hr. destruct Hz; auto. }
+  split; [apply Fm; [apply Fm|]; assumption|]. split; [apply Fm; [apply Fm|]; assumption|].
+  split; [rewrite !mrg_length; lia|]. split; [rewrite !mrg_length; lia|].
+  split.
+  - (* the left header of a shared or adjacent pair is kept on the rhs side *)
+    intros h Hh [Hsame|Hadj].
+    + destruct (pairs_hit (fun v => v) (map Hd curr) (map Hd nxt) h Hh Hsame) as (a & b & Hin & Ha).
+      fold (P_id curr nxt) in Hin.
+      assert (Har : (N.to_nat a < length curr)%nat).
+      { apply (pairs_in (fun v => v)) in Hin. destruct Hin as (Hlt & _). rewrite map_length in Hlt. lia. }
+      rewrite in_map_Hd_nth in Ha by exact Har.
+      apply in_map_iff. exists h. split.
+      * rewrite <- Ha. apply Hd_idem. pose proof (Forall_sm_lt64 curr (PL_sm curr Hc)) as H64. unfold lt64 in H64.
+        rewrite Forall_forall in H64. apply H64, nth_In, Har.
+      * apply mrg_in. left. apply mrg_in. left. unfold IH. apply in_map_iff. exists (nth (N.to_nat a) curr 0).
+        split; [rewrite header_of_Hd; exact Ha|]. apply take_idx_in. exists a. split; [|reflexivity].
+        apply in_map_iff. exists (a, b). split; [reflexivity|exact Hin].
+    + destruct (pairs_hit (fun v => v + 2^18) (map Hd curr) (map Hd nxt) h Hh Hadj) as (a & b & Hin & Ha).
+      fold (P_adj curr nxt) in Hin.
+      assert (Har : (N.to_nat a < length curr)%nat).
+      { apply (pairs_in (fun v => v + 2^18)) in Hin. destruct Hin as (Hlt & _). rewrite map_length in Hlt. lia. }
+      rewrite in_map_Hd_nth in Ha by exact Har.
+      apply in_map_iff. exists (nth (N.to_nat a) curr 0). split; [exact Ha|].
+      apply mrg_in. left. apply mrg_in. right. unfold A1l. apply take_idx_in. exists a. split; [|reflexivity].
+      apply in_map_iff. exists (a, b). split; [reflexivity|exact Hin].
+  - (* elements of the lhs side: above one unit unless they are shared headers of curr *)
+    intros x Hx. apply mrg_in in Hx. destruct Hx as [Hx|Hx]; [apply mrg_in in Hx; destruct Hx as [Hx|Hx]|].
+    + right. unfold IH in Hx. apply in_map_iff in Hx. destruct Hx as (w & <- & Hw). apply take_idx_in in Hw.
+      destruct Hw as (a & Ha & ->). apply in_map_iff in Ha. destruct Ha as ([a' b] & <- & Hin). cbn [fst].
+      apply (pairs_in (fun v => v)) in Hin. destruct Hin as (Hlt & _). rewrite map_length in Hlt.
+      pose proof (Forall_sm_lt64 curr (PL_sm curr Hc)) as H64. unfold lt64 in H64. rewrite Forall_forall in H64.
+      rewrite (header_of_Hd (nth (N.to_nat a') curr 0)). rewrite (Hd_idem (nth (N.to_nat a') curr 0)) by (apply H64, nth_In; lia). apply in_map. apply nth_In. lia.
+    + left. unfold A1r in Hx. apply take_idx_in in Hx. destruct Hx as (b & Hb & ->). apply in_map_iff in Hb.
+      destruct Hb as ([a b'] & <- & Hin). cbn [snd]. pose proof (pairs_snd_val _ _ _ _ _ Hin) as Hv.
+      apply (pairs_in (fun v => v + 2^18)) in Hin. destruct Hin as (_ & _ & Hf). apply first_index_some in Hf. destruct Hf as (Hlt & _). rewrite map_length in Hlt.
+      rewrite in_map_Hd_nth in Hv by lia.
+      pose proof (Forall_sm_lt64 nxt (PL_sm nxt Hn)) as H64. unfold lt64 in H64. rewrite Forall_forall in H64.
+      pose proof (Hd_le (nth (N.to_nat b') nxt 0) ltac:(apply H64, nth_In; lia)). lia.
+    + left. unfold A2r in Hx. apply take_idx_in in Hx. destruct Hx as (b & Hb & ->). apply in_map_iff in Hb.
+      destruct Hb as ([a b'] & <- & Hin). cbn [snd]. pose proof (pairs_snd_val _ _ _ _ _ Hin) as Hv.
+      apply (pairs_in (fun v => v + 2^18)) in Hin. destruct Hin as (_ & _ & Hf). apply first_index_some in Hf. destruct Hf as (Hlt & _). rewrite map_length in Hlt.
+      rewrite in_map_Hd_nth in Hv by lia.
+      pose proof (Forall_sm_lt64 curr (PL_sm curr Hc)) as H64. unfold lt64 in H64. rewrite Forall_forall in H64.
+      pose proof (Hd_le (nth (N.to_nat b') curr 0) ltac:(apply H64, nth_In; lia)). lia.
+Qed.
+
+(* ---- ia_fold ---- *)
+Definition Good (curr ll lr : list N) : Prop :=
+  SSle ll /\ SSle lr /\ Forall sm ll /\ Forall sm lr /\ N.of_nat (length ll) < 2^53 /\ N.of_nat (length lr) < 2^53 /\
+  (forall x, In x ll -> 2^18 <= x \/ In (Hd x) (map Hd curr)).
+
+Lemma drop_take l r : SSle l -> Forall sm l -> SSle r -> Forall sm r -> N.of_nat (length l) < 2^53 -> N.of_nat (length r) < 2^53 ->
+  exists il, intersect_drop l r header_mask = Done il /\
+    SSle (take_idx l (fst il)) /\ Forall sm (take_idx l (fst il)) /\ (length (take_idx l (fst il)) <= length l)%nat /\
+    incl (take_idx l (fst il)) l /\
+    (forall h, In h (map Hd l) -> In h (map Hd r) -> In h (map Hd (take_idx l (fst il)))).
+Proof.
+  intros Sl Ml Sr Mr Ll Lr.
+  assert (L62 : forall n, n < 2^53 -> n < 2^62) by (intros n Hn; eapply N.lt_trans; [exact Hn|reflexivity]).
+  eexists. split.
+  { apply intersect_drop_correct; [apply ss_msorted_hm; [exact Sl|apply Forall_sm_lt64; exact Ml]
+                                  |apply ss_msorted_hm; [exact Sr|apply Forall_sm_lt64; exact Mr]|apply L62; exact Ll|apply L62; exact Lr]. }
+  rewrite drop_spec_eq. cbn [fst].
+  pose proof (pairs_fst_sorted (fun v => v) (map Hd l) (map Hd r)) as F1. fold (P_id l r) in F1.
+  pose proof (pairs_fst_range (fun v => v) (map Hd l) (map Hd r)) as F2. fold (P_id l r) in F2. rewrite map_length in F2.
+  split; [apply take_idx_ss; [exact Sl|apply sslt_ssle; exact F1|exact F2]|].
+  split; [apply take_idx_forall; [exact Ml|exact F2]|].
+  split; [unfold take_idx; rewrite map_length; apply sslt_len_le; assumption|].
+  split.
+  - intros x Hx. apply take_idx_in in Hx. destruct Hx as (a & Ha & ->). rewrite Forall_forall in F2. specialize (F2 a Ha). apply nth_In. lia.
+  - intros h H1 H2. destruct (pairs_hit (fun v => v) (map Hd l) (map Hd r) h H1 H2) as (a & b & Hin & Ha). fold (P_id l r) in Hin.
+    assert (Har : (N.to_nat a < length l)%nat).
+    { apply (pairs_in (fun v => v)) in Hin. destruct Hin as (Hlt & _). rewrite map_length in Hlt. lia. }
+    rewrite in_map_Hd_nth in Ha by exact Har. apply in_map_iff. exists (nth (N.to_nat a) l 0). split; [exact Ha|].
+    apply take_idx_in. exists a. split; [|reflexivity]. apply in_map_iff. exists (a, b). split; [reflexivity|exact Hin].
+Qed.
+
+Lemma ia_fold_ok curr : PL curr -> forall rest ll lr, Forall PL rest -> Good curr ll lr ->
+  exists ll' lr', ia_fold curr rest (Some (ll, lr)) = AOk (Some (ll', lr')) /\ Good curr ll' lr' /\
+    (forall h, In h (map Hd lr) -> In h (map Hd curr) ->
+       (forall e, In e rest -> In h (map Hd e) \/ In (h + 2^18) (map Hd e)) -> In h (map Hd lr')).
+Proof.
+  intros Hc. induction rest as [|nxt more IH]; intros ll lr HF HG.
+  - exists ll, lr. cbn [ia_fold]. split; [reflexivity|]. split; [exact HG|]. intros h H _ _. exact H.
+  - inversion HF as [|? ? Hn HF']; subst. cbn [ia_fold].
+    destruct (ia_pair_ok curr nxt Hc Hn) as (lhs & rhs & Ep & S1 & S2 & M1 & M2 & L1 & L2 & Hkeep & _).
+    rewrite Ep. cbn [abind fst snd].
+    destruct HG as (G1 & G2 & G3 & G4 & G5 & G6 & G7).
+    assert (Lc : N.of_nat (length curr) < 2^50) by (destruct Hc as (_ & _ & H); exact H).
+    assert (Ln : N.of_nat (length nxt) < 2^50) by (destruct Hn as (_ & _ & H); exact H).
+    assert (Ll : N.of_nat (length lhs) < 2^53) by (change (2^53) with 9007199254740992; change (2^50) with 1125899906842624 in *; lia).
+    assert (Lr : N.of_nat (length rhs) < 2^53) by (change (2^53) with 9007199254740992; change (2^50) with 1125899906842624 in *; lia).
+    destruct (drop_take ll lhs G1 G3 S1 M1 G5 Ll) as (il & Eil & A1 & A2 & A3 & A4 & _).
+    destruct (drop_take lr rhs G2 G4 S2 M2 G6 Lr) as (ir & Eir & B1 & B2 & B3 & _ & B5).
+    rewrite Eil, Eir. cbn [lift abind].
+    destruct (IH (take_idx ll (fst il)) (take_idx lr (fst ir)) HF') as (ll' & lr' & E & HG' & Hk').
+    { repeat split; try assumption; try lia. intros x Hx. apply G7. apply A4. exact Hx. }
+    exists ll', lr'. split; [exact E|]. split; [exact HG'|].
+    intros h H1 H2 H3. apply Hk'; [|exact H2|intros e He; apply H3; right; exact He].
+    apply B5; [exact H1|]. apply Hkeep; [exact H2|]. apply H3. left. reflexivity.
+Qed.
+
+Lemma ia_fold_top curr nxt more : PL curr -> Forall PL (nxt :: more) ->
+  exists ll lr, ia_fold curr (nxt :: more) None = AOk (Some (ll, lr)) /\ Good curr ll lr /\
+    (forall h, In h (map Hd curr) -> (forall e, In e (nxt :: more) -> In h (map Hd e) \/ In (h + 2^18) (map Hd e)) -> In h (map Hd lr)).
+Proof.
+  intros Hc HF. inversion HF as [|? ? Hn HF']; subst. cbn [ia_fold].
+  destruct (ia_pair_ok curr nxt Hc Hn) as (lhs & rhs & Ep & S1 & S2 & M1 & M2 & L1 & L2 & Hkeep & Hlow).
+  rewrite Ep. cbn [abind].
+  assert (Lc : N.of_nat (length curr) < 2^50) by (destruct Hc as (_ & _ & H); exact H).
+  assert (Ln : N.of_nat (length nxt) < 2^50) by (destruct Hn as (_ & _ & H); exact H).
+  destruct (ia_fold_ok curr Hc more lhs rhs HF') as (ll & lr & E & HG & Hk).
+  { repeat split; try assumption; change (2^53) with 9007199254740992; change (2^50) with 1125899906842624 in *; lia. }
+  exists ll, lr. split; [exact E|]. split; [exact HG|].
+  intros h H1 H2. apply Hk; [|exact H1|intros e He; apply H2; right; exact He].
+  apply Hkeep; [exact H1|]. apply H2. left. reflexivity.
+Qed.
+
+(* ---- the candidate headers and the slices ---- *)
+Lemma mrgd_ssle : forall l r, SSle l -> SSle r -> SSle (mrgd l r).
+Proof.
+  unfold SSle. induction l as [|x l IHl]; intros r Hl Hr; [rewrite mrgd_nil_l; exact Hr|].
+  induction r as [|y r IHr]; [rewrite mrgd_nil_r; exact Hl|].
+  rewrite mrgd_cons. inversion Hl as [|? ? Hl1 Hl2]; inversion Hr as [|? ? Hr1 Hr2]; subst.
+  rewrite Forall_forall in Hl2, Hr2.
+  destruct (N.ltb_spec x y); [|destruct (N.ltb_spec y x)].
+  - constructor; [apply IHl; assumption|].
+    apply Forall_forall. intros z Hz. rewrite mrgd_In in Hz. destruct Hz as [Hz|[Hz|Hz]].
+    + apply Hl2; assumption. + subst; lia. + apply Hr2 in Hz. lia.
+  - constructor; [apply IHr; assumption|].
+    apply Forall_forall. intros z Hz. rewrite mrgd_In in Hz. destruct Hz as [[Hz|Hz]|Hz].
+    + subst; lia. + apply Hl2 in Hz. lia. + apply Hr2; assumption.
+  - assert (x = y) by lia. subst y.
+    constructor; [apply IHl; assumption|].
+    apply Forall_forall. intros z Hz. rewrite mrgd_In in Hz. destruct Hz as [Hz|Hz]; auto.
+Qed.
+
+Lemma mrgd_length : forall l r, (length (mrgd l r) <= length l + length r)%nat.
+Proof.
+  induction l as [|x l IHl]; intros r; [rewrite mrgd_nil_l; cbn; lia|].
+  induction r as [|y r IHr]; [rewrite mrgd_nil_r; cbn; lia|].
+  rewrite mrgd_cons. destruct (x <? y); [|destruct (y <? x)]; cbn [length].
+  - specialize (IHl (y :: r)). cbn [length] in IHl. lia.
+  - cbn [length] in IHr. lia.
+  - specialize (IHl r). lia.
+Qed.
+
+Lemma wadd_unit x : sm x -> wadd x hdr_unit = x + 2^18.
+Proof. intros H. unfold wadd. rewrite hdr_unit_val. apply N.mod_small. exact H. Qed.
+Lemma wsub_unit x : 2^18 <= x -> x < 2^64 -> wsub x hdr_unit = x - 2^18.
+Proof.
+  intros H1 H2. unfold wsub. rewrite hdr_unit_val. change W64 with (2^64). rewrite (N.mod_small (2^18)) by reflexivity.
+  replace (x + 2^64 - 2^18) with ((x - 2^18) + 1 * 2^64) by lia. rewrite N.mod_add by discriminate. apply N.mod_small. lia.
+Qed.
+
+Lemma headers_ok curr ll lr : Good curr ll lr -> (forall w, In w curr -> 2^18 <= Hd w) ->
+  let m3 := mrgd lr (mrgd ll (mrgd (map (fun h => wadd h hdr_unit) lr) (map (fun h => wsub h hdr_unit) ll))) in
+  let hs := map (fun h => N.land h header_mask) m3 in
+  SSle hs /\ lt64 hs /\ N.of_nat (length hs) < 2^56 /\
+  (forall h, In h (map Hd lr) -> In h hs /\ In (h + 2^18) hs).
+Proof.
+  intros (G1 & G2 & G3 & G4 & G5 & G6 & G7) NW m3 hs.
+  assert (Hlow : forall x, In x ll -> 2^18 <= x).
+  { intros x Hx. destruct (G7 x Hx) as [H|H]; [exact H|]. apply in_map_iff in H. destruct H as (w & Hw & Hin).
+    specialize (NW w Hin). rewrite Hw in NW. rewrite Forall_forall in G3. pose proof (Hd_le x (sm_lt64 x (G3 x Hx))). lia. }
+  set (to_rhs := map (fun h => wadd h hdr_unit) lr) in *. set (to_lhs := map (fun h => wsub h hdr_unit) ll) in *.
+  assert (Er : to_rhs = map (fun h => h + 2^18) lr).
+  { unfold to_rhs. apply map_ext_in. intros x Hx. apply wadd_unit. rewrite Forall_forall in G4. apply G4, Hx. }
+  assert (El : to_lhs = map (fun h => h - 2^18) ll).
+  { unfold to_lhs. apply map_ext_in. intros x Hx. apply wsub_unit; [apply Hlow, Hx|]. rewrite Forall_forall in G3. apply sm_lt64, G3, Hx. }
+  assert (Sr : SSle to_rhs) by (rewrite Er; apply ss_map_mono; [intros; lia|exact G2]).
+  assert (Sl : SSle to_lhs).
+  { rewrite El. apply ss_map_mono; [|exact G1]. intros x y Hx Hy Hxy. pose proof (Hlow x Hx). pose proof (Hlow y Hy). lia. }
+  assert (R64 : lt64 to_rhs).
+  { rewrite Er. apply Forall_forall. intros z Hz. apply in_map_iff in Hz. destruct Hz as (x & Ez & Hx). rewrite Forall_forall in G4.
+    specialize (G4 x Hx). unfold sm in G4. subst z. exact G4. }
+  assert (L64 : lt64 to_lhs).
+  { rewrite El. apply Forall_forall. intros z Hz. apply in_map_iff in Hz. destruct Hz as (x & Ez & Hx). rewrite Forall_forall in G3.
+    pose proof (sm_lt64 x (G3 x Hx)). subst z. lia. }
+  assert (M64 : forall l r, lt64 l -> lt64 r -> lt64 (mrgd l r)).
+  { intros l r Hl Hr. apply Forall_forall. intros z Hz. apply mrgd_In in Hz. unfold lt64 in *. rewrite Forall_forall in Hl, Hr. destruct Hz; auto. }
+  assert (S3 : SSle m3) by (unfold m3; repeat apply mrgd_ssle; assumption).
+  assert (T64 : lt64 m3) by (unfold m3; repeat apply M64; try assumption; apply Forall_sm_lt64; assumption).
+  assert (Len : (length m3 <= 2 * length lr + 2 * length ll)%nat).
+  { unfold m3. pose proof (mrgd_length lr (mrgd ll (mrgd to_rhs to_lhs))). pose proof (mrgd_length ll (mrgd to_rhs to_lhs)).
+    pose proof (mrgd_length to_rhs to_lhs). unfold to_rhs, to_lhs in *. rewrite !map_length in *. lia. }
+  split.
+  { unfold hs. apply (ss_map_mono (fun h => N.land h header_mask)); [|exact S3]. intros x y Hx Hy Hxy. apply (Hd_mono x y Hxy).
+    unfold lt64 in T64. rewrite Forall_forall in T64. apply T64, Hy. }
+  split.
+  { unfold hs. apply Forall_forall. intros z Hz. apply in_map_iff in Hz. destruct Hz as (x & <- & Hx).
+    unfold lt64 in T64. rewrite Forall_forall in T64. pose proof (Hd_le x (T64 x Hx)). specialize (T64 x Hx). unfold Hd in *. lia. }
+  split.
+  { unfold hs. rewrite map_length. change (2^56) with 72057594037927936. change (2^53) with 9007199254740992 in *. lia. }
+  intros h Hh. apply in_map_iff in Hh. destruct Hh as (x & <- & Hx). split.
+  - unfold hs. apply (in_map (fun h => N.land h header_mask)). unfold m3. apply mrgd_In. left. exact Hx.
+  - rewrite Forall_forall in G4. rewrite <- (Hd_add_unit x (G4 x Hx)).
+    unfold hs. apply (in_map (fun h => N.land h header_mask)). unfold m3. apply mrgd_In. right. apply mrgd_In. right. apply mrgd_In. left.
+    rewrite Er. apply (in_map (fun h => h + 2^18)). exact Hx.
+Qed.
+
+Lemma mvals_wmask_id l : lt64 l -> mvals l wmask = l.
+Proof.
+  intros H. unfold mvals. rewrite <- (map_id l) at 2. apply map_ext_in. intros x Hx. apply land_wmask.
+  unfold lt64 in H. rewrite Forall_forall in H. apply H, Hx.
+Qed.
+
+Lemma PL_hdr_ss e : PL e -> SSle (map header_of e) /\ lt64 (map header_of e).
+Proof.
+  intros HP. pose proof (Forall_sm_lt64 e (PL_sm e HP)) as H64. split.
+  - replace (map header_of e) with (map Hd e) by (apply map_ext; intros; symmetry; apply header_of_Hd).
+    apply sslt_ssle. destruct HP as (_ & H & _). exact H.
+  - apply Forall_forall. intros z Hz. apply in_map_iff in Hz. destruct Hz as (w & <- & Hw). unfold lt64 in H64. rewrite Forall_forall in H64.
+    rewrite (header_of_Hd w). pose proof (Hd_le w (H64 w Hw)). specialize (H64 w Hw). lia.
+Qed.
+
+Lemma slice_ok e hs : PL e -> SSle hs -> lt64 hs -> N.of_nat (length hs) < 2^62 ->
+  exists idxs, slice_header e hs = Done (take_idx e idxs) /\ StronglySorted N.lt idxs /\
+    Forall (fun a => a < N.of_nat (length e)) idxs /\
+    (forall a, a < N.of_nat (length e) -> In (Hd (nth (N.to_nat a) e 0)) hs -> In a idxs).
+Proof.
+  intros HP Hs H64 Hlen. destruct (PL_hdr_ss e HP) as [Se S64].
+  unfold slice_header.
+  rewrite (intersect_keep_correct hs (map header_of e) wmask).
+  2:{ apply ss_msorted_w; assumption. } 2:{ apply ss_msorted_w; assumption. } 2:{ exact Hlen. }
+  2:{ rewrite map_length. apply PL_len62. exact HP. }
+  cbn [bind]. unfold intersect_keep_spec. cbn [snd].
+  rewrite (mvals_wmask_id hs H64), (mvals_wmask_id (map header_of e) S64).
+  eexists. split; [reflexivity|]. split; [apply filt_sorted|].
+  split.
+  - apply Forall_forall. intros a Ha. apply (filt_in (fun v => mem_n v hs)) in Ha. destruct Ha as [Ha _]. rewrite map_length in Ha. exact Ha.
+  - intros a Ha Hin. apply (filt_in (fun v => mem_n v hs)). rewrite map_length. split; [exact Ha|].
+    unfold mem_n. apply existsb_exists. exists (Hd (nth (N.to_nat a) e 0)). split; [exact Hin|].
+    apply N.eqb_eq. change 0 with (header_of 0) at 1. rewrite map_nth. apply header_of_Hd.
+Qed.
+
+Definition kept_spec (curr : list N) (rest : list (list N)) (e s : list N) : Prop :=
+  exists idxs, s = take_idx e idxs /\ StronglySorted N.lt idxs /\ Forall (fun a => a < N.of_nat (length e)) idxs /\
+    (forall a h, a < N.of_nat (length e) ->
+       (Hd (nth (N.to_nat a) e 0) = h \/ Hd (nth (N.to_nat a) e 0) = h + 2^18) ->
+       In h (map Hd curr) -> (forall e', In e' rest -> In h (map Hd e') \/ In (h + 2^18) (map Hd e')) -> In a idxs).
+
+Lemma slice_all_ok hs : SSle hs -> lt64 hs -> N.of_nat (length hs) < 2^62 -> forall encs, Forall PL encs ->
+  exists sl, slice_all_headers encs hs = AOk sl /\
+    Forall2 (fun e s => exists idxs, s = take_idx e idxs /\ StronglySorted N.lt idxs /\ Forall (fun a => a < N.of_nat (length e)) idxs /\
+                         (forall a, a < N.of_nat (length e) -> In (Hd (nth (N.to_nat a) e 0)) hs -> In a idxs)) encs sl.
+Proof.
+  intros Hs H64 Hl. induction encs as [|e rest IH]; intros HF.
+  - exists []. split; [reflexivity|constructor].
+  - inversion HF as [|? ? He HF']; subst. destruct (slice_ok e hs He Hs H64 Hl) as (idxs & E & I1 & I2 & I3).
+    destruct (IH HF') as (sl & Esl & F2). exists (take_idx e idxs :: sl). cbn [slice_all_headers]. rewrite E. cbn [lift abind]. rewrite Esl. cbn [abind].
+    split; [reflexivity|]. constructor; [|exact F2]. exists idxs. repeat split; assumption.
+Qed.
+
+Lemma F2_impl {A B} (P Q : A -> B -> Prop) l1 l2 : (forall a b, P a b -> Q a b) -> Forall2 P l1 l2 -> Forall2 Q l1 l2.
+Proof. intros H F. induction F; constructor; auto. Qed.
+
+(* ---------- T3: _intersect_all keeps the left bucket of every shared/adjacent alignment, and its right neighbour ---------- *)
+Theorem intersect_all_keeps curr nxt more : Forall PL (curr :: nxt :: more) -> (forall w, In w curr -> 2^18 <= Hd w) ->
+  exists sl, intersect_all (curr :: nxt :: more) = AOk (concat sl, cum 0 sl) /\
+    Forall2 (kept_spec curr (nxt :: more)) (curr :: nxt :: more) sl.
+Proof.
+  intros HF NW. inversion HF as [|? ? Hc HF']; subst.
+  destruct (ia_fold_top curr nxt more Hc HF') as (ll & lr & Efold & HG & Hkeep).
+  unfold intersect_all. rewrite Efold. cbn [abind]. cbv zeta.
+  rewrite merge_drop_model. cbn [lift abind]. rewrite merge_drop_model. cbn [lift abind]. rewrite merge_drop_model. cbn [lift abind].
+  destruct (headers_ok curr ll lr HG NW) as (Hs & H64 & Hlen & Hin). cbv zeta in Hs, H64, Hlen, Hin. cbv zeta.
+  set (hs := map (fun h => N.land h header_mask) _) in *.
+  assert (Hlen62 : N.of_nat (length hs) < 2^62) by (eapply N.lt_trans; [exact Hlen|reflexivity]).
+  destruct (slice_all_ok hs Hs H64 Hlen62 (curr :: nxt :: more) HF) as (sl & Esl & F2).
+  rewrite Esl. cbn [abind]. exists sl. split.
+  - f_equal. f_equal. apply (fold_cum sl [] 0).
+  - eapply F2_impl; [|exact F2]. intros e s (idxs & E1 & E2 & E3 & E4). exists idxs. repeat split; try assumption.
+    intros a h Ha Hh Hc' Hall. apply E4; [exact Ha|].
+    pose proof (Hin h (Hkeep h Hc' Hall)) as [K1 K2]. destruct Hh as [-> | ->]; assumption.
+Qed.
+
 Print Assumptions span_table_keeps_exact.
-Print Assumptions fits_bound.
+Print Assumptions span_search_target.
+Print Assumptions intersect_all_keeps.
